@@ -3,8 +3,9 @@
    (2) a per-call invariant `Cfull c i now n x` (n = attempt tasks spawned by the poll in
    progress that have not run yet), preserved by every primitive of the model: a task sending
    its result, a task making its inner call, a task running for the first time (and possibly
-   being suspended on an unready clone), the script completing an inner call or making a clone
-   ready, cancellation, the clock, and the poll itself in each phase; (3) the system invariant
+   being suspended on an unready clone, or giving up because its clone's poll_ready failed), the
+   script completing an inner call, making a clone ready or making its readiness fail,
+   cancellation, the clock, and the poll itself in each phase; (3) the system invariant
    by induction over event lists (Lib/Base.v reach_inv); (4) the statements of C12 and
    non-vacuity examples. *)
 From TR Require Import Lib.Base Model.Hedge.
@@ -131,6 +132,15 @@ Proof.
   - inversion H as [|? ? Hy Ht]; subst. constructor.
     + rewrite in_app_iff. intros [Hin|[->|[]]]; [exact (Hy Hin)|]. apply Hx. left. reflexivity.
     + apply IH; [exact Ht|]. intros Hin. apply Hx. right. exact Hin.
+Qed.
+
+Lemma nodup_app_intro (l1 l2 : list nat) :
+  NoDup l1 -> NoDup l2 -> (forall j, In j l1 -> In j l2 -> False) -> NoDup (l1 ++ l2).
+Proof.
+  induction l1 as [|y t IH]; intros H1 H2 Hd; cbn; [exact H2|].
+  inversion H1 as [|? ? Hy Ht]; subst. constructor.
+  - rewrite in_app_iff. intros [Hin|Hin]; [exact (Hy Hin)|]. apply (Hd y); [left; reflexivity|exact Hin].
+  - apply IH; [exact Ht|exact H2|]. intros j J1 J2. apply (Hd j); [right; exact J1|exact J2].
 Qed.
 
 (* the owner of an inner call determines its position *)
@@ -271,15 +281,26 @@ Proof.
         split; [constructor; [reflexivity|exact Hq]|exact Hp].
 Qed.
 
-(* what AllAttemptsFailed e at instant tau guarantees *)
+(* what AllAttemptsFailed e at instant tau guarantees: every attempt was launched; each has made
+   its inner call or failed readiness (nobody waits); every inner call has finished without
+   success; every readiness failure was delivered *)
 Definition failed_spec (c : cfg) (i : nat) (x : call) (e tau : Z) : Prop :=
-  length (launch x) = maxa c /\ length (starts x) = maxa c /\
-  (forall n, (n < maxa c)%nat -> exists o, gate x n = Some o /\ o <> OOk /\
+  length (launch x) = maxa c /\ (length (starts x) + length (rfl x) = maxa c)%nat /\
+  (forall n, (n < length (starts x))%nat -> exists o, gate x n = Some o /\ o <> OOk /\
       (o = OErr -> exists k tk, In ((k, false, val i n), tk) (dlog x) /\ tk <= tau)) /\
+  (forall k, In k (rfl x) -> exists tk, In ((k, false, rval i k), tk) (dlog x) /\ tk <= tau) /\
   (latency_mode c = true -> (1 < maxa c)%nat ->
-      e = val i 0 /\ forall n, (n < maxa c)%nat -> gate x n = Some OErr) /\
+      e = val i 0 /\ forall n, (n < length (starts x))%nat -> gate x n = Some OErr) /\
   (latency_mode c = false \/ maxa c = 1%nat ->
       exists k tk rest, dlog x = ((k, false, e), tk) :: rest).
+
+(* where the message m, logged at tau, came from: the inner call of its attempt, or the failed
+   readiness of its attempt's clone *)
+Definition ent_ok (i : nat) (now : Z) (x : call) (m : item) (tau : Z) : Prop :=
+  (exists n s, nth_error (starts x) n = Some (it_att m, s) /\
+               gate x n = Some (out_of (it_ok m)) /\ it_val m = val i n /\ s <= tau <= now) \/
+  (In (it_att m) (rfl x) /\ it_ok m = false /\ it_val m = rval i (it_att m) /\
+   nth (it_att m) (launch x) 0 <= tau <= now).
 
 (* n = attempt tasks spawned by the poll in progress that have not run yet;
    h = tasks that have been launched, are not waiting for readiness and have not made their
@@ -298,7 +319,7 @@ Record Cbase (c : cfg) (i : nat) (now : Z) (n h : nat) (x : call) : Prop := {
   b_par : latency_mode c = false -> Forall (eq (t0 x)) (es now n x);
   b_dl : ph x = Latency -> (sp x < maxa c)%nat ->
          dline x = nth (sp x - 1) (es now n x) 0 + delay c (sp x);
-  s_cnt : (length (starts x) + length (waiting x) + h = length (launch x))%nat;
+  s_cnt : (length (starts x) + length (waiting x) + length (rfl x) + h = length (launch x))%nat;
   s_nd : NoDup (map fst (starts x));
   s_in : forall k s, In (k, s) (starts x) ->
          (k < length (launch x))%nat /\ ~ In k (waiting x) /\ nth k (launch x) 0 <= s <= now;
@@ -308,11 +329,9 @@ Record Cbase (c : cfg) (i : nat) (now : Z) (n h : nat) (x : call) : Prop := {
   w_nd : NoDup (waiting x);
   g_off : gated c = false -> forall k, rdy x k = true;
   g_seq : gated c = false -> forall n0 k s, nth_error (starts x) n0 = Some (k, s) ->
-          k = n0 /\ s = nth n0 (launch x) 0;
+          s = nth k (launch x) 0 /\ (rfl x = [] -> k = n0);
   c_log : map fst (dlog x) = cons x ++ queue x;
-  c_ent : forall m tau, In (m, tau) (dlog x) ->
-          exists n s, nth_error (starts x) n = Some (it_att m, s) /\
-                      gate x n = Some (out_of (it_ok m)) /\ it_val m = val i n /\ s <= tau <= now;
+  c_ent : forall m tau, In (m, tau) (dlog x) -> ent_ok i now x m tau;
   c_nd : NoDup (map att (dlog x));
   c_err : pending x -> Forall is_err (cons x);
   c_lat : ph x = Latency ->
@@ -326,14 +345,24 @@ Record Cbase (c : cfg) (i : nat) (now : Z) (n h : nat) (x : call) : Prop := {
                       In ((k, true, v), t1) (dlog x) /\ t1 <= tau;
   e_fail : forall e tau, res x = Some (3, e, tau) -> failed_spec c i x e tau;
   f_one : latency_mode c = true -> forall v tau, In ((0%nat, true, v), tau) (dlog x) ->
-          tau < t0 x + delay c 1 -> sp x = 1%nat
+          tau < t0 x + delay c 1 -> sp x = 1%nat;
+  w_ne : forall k, In k (waiting x) -> rerr x k = false;
+  r_in : forall k, In k (rfl x) ->
+         (1 <= k < length (launch x))%nat /\ ~ In k (waiting x) /\ ~ In k (map fst (starts x));
+  r_nd : NoDup (rfl x);
+  r_dlv : pending x -> forall k, In k (rfl x) -> In k (map att (dlog x));
+  g_inc : gated c = false -> forall n0 n1 k0 k1 s0 s1, (n0 < n1)%nat ->
+          nth_error (starts x) n0 = Some (k0, s0) -> nth_error (starts x) n1 = Some (k1, s1) -> (k0 < k1)%nat;
+  c_lt : ph x = Latency -> (errs x < maxa c)%nat
 }.
 
 
 (* open the record without shadowing the projections *)
 Ltac open_base H :=
   let HB := fresh "HB" in pose proof H as HB;
-  destruct HB as [F01 F02 F03 F04 F05 F06 F07 F08 F09 F10 F11 F12 F13 F14 F15 F16 F17 F18 F19 F20 F21 F22 F23 F24 F25 F26 F27 F28 F29 F30 F31 F32].
+  destruct HB as [F01 F02 F03 F04 F05 F06 F07 F08 F09 F10 F11 F12 F13 F14 F15 F16 F17 F18 F19 F20 F21 F22 F23 F24 F25 F26 F27 F28 F29 F30 F31 F32 F33 F34 F35 F36 F37 F38].
+
+Ltac ent := unfold ent_ok; cbn [ph t0 sp errs perr dline queue launch waiting rdy starts gate woken dlog cons res rerr rfl].
 
 (* every started inner call that has finished without panicking has delivered its message *)
 Definition DlvExcept (n0 : nat) (x : call) : Prop :=
@@ -361,11 +390,13 @@ Proof. intros [H|H]; rewrite H; discriminate. Qed.
 
 (* the attempt task that made a logged message has made an inner call *)
 Lemma att_owner c i now n h x k :
-  Cbase c i now n h x -> In k (map att (dlog x)) -> In k (map fst (starts x)).
+  Cbase c i now n h x -> In k (map att (dlog x)) -> In k (map fst (starts x)) \/ In k (rfl x).
 Proof.
   intros H Hin. apply in_map_iff in Hin. destruct Hin as [[m tau] [E Hin]].
-  destruct (c_ent _ _ _ _ _ _ H m tau Hin) as (n0 & s & E1 & _). unfold att in E. cbn in E. subst k.
-  apply in_map_iff. exists (it_att m, s). split; [reflexivity|]. apply (nth_error_In _ _ E1).
+  unfold att in E. cbn in E. subst k.
+  destruct (c_ent _ _ _ _ _ _ H m tau Hin) as [(n0 & s & E1 & _)|(E1 & _)].
+  - left. apply in_map_iff. exists (it_att m, s). split; [reflexivity|]. apply (nth_error_In _ _ E1).
+  - right. exact E1.
 Qed.
 
 (* ---------- a message is pushed into the channel ---------- *)
@@ -375,7 +406,7 @@ Lemma push_ok c i now n x k n0 s b :
   Cfull c i now n
     (mkCall (ph x) (t0 x) (sp x) (errs x) (perr x) (dline x) (queue x ++ [(k, b, val i n0)])
             (launch x) (waiting x) (rdy x) (starts x) (gate x) true
-            (dlog x ++ [((k, b, val i n0), now)]) (cons x) (res x)).
+            (dlog x ++ [((k, b, val i n0), now)]) (cons x) (res x) (rerr x) (rfl x)).
 Proof.
   intros H Hd Hp Hk Hg Hnin.
   assert (Hnd : ph x <> Done) by (apply pending_not_done; exact Hp).
@@ -383,13 +414,13 @@ Proof.
   { destruct (s_in _ _ _ _ _ _ H k s (nth_error_In _ _ Hk)) as (_ & _ & E). lia. }
   split; [|split; [|split]].
   - open_base H.
-    constructor; cbn [ph t0 sp errs perr dline queue launch waiting rdy starts gate woken dlog cons res];
+    constructor; cbn [ph t0 sp errs perr dline queue launch waiting rdy starts gate woken dlog cons res rerr rfl];
       unfold es in *; cbn [launch]; try assumption.
     + intros E. destruct Hp as [Hp|Hp]; congruence.
     + rewrite map_app, (c_log _ _ _ _ _ _ H), <- app_assoc. reflexivity.
     + intros m tau Hin. apply in_app_or in Hin. destruct Hin as [Hin|[Hin|[]]].
       * apply (c_ent _ _ _ _ _ _ H). exact Hin.
-      * injection Hin as <- <-. exists n0, s. cbn. repeat split; try assumption; lia.
+      * injection Hin as <- <-. left. exists n0, s. cbn. repeat split; try assumption; lia.
     + rewrite map_app. cbn. apply nodup_snoc; [apply (c_nd _ _ _ _ _ _ H)|exact Hnin].
     + intros _ _. reflexivity.
     + intros v0 tau E. destruct (e_res _ _ _ _ _ _ H _ _ _ E) as [E1 _]. contradiction.
@@ -404,6 +435,7 @@ Proof.
         rewrite (b_t0 _ _ _ _ _ _ H Hpos) in Hs.
         pose proof (es_le _ _ _ _ _ _ H) as Hle. rewrite Forall_forall in Hle.
         specialize (Hle (nth 1 (es now n x) 0) ltac:(apply nth_In; lia)). lia.
+    + intros _ k' Hk'. rewrite map_app, in_app_iff. left. apply (r_dlv _ _ _ _ _ _ H Hp k' Hk').
   - intros _ n' k' s' o' Hk' Hg' Ho'. cbn [starts gate dlog] in *. rewrite map_app, in_app_iff.
     destruct (Nat.eq_dec n' n0) as [->|Hne].
     + right. left. rewrite Hk in Hk'. injection Hk' as <- _. reflexivity.
@@ -415,10 +447,10 @@ Qed.
 Lemma wake_ok c i now n h x :
   Cbase c i now n h x ->
   Cbase c i now n h (mkCall (ph x) (t0 x) (sp x) (errs x) (perr x) (dline x) (queue x) (launch x)
-                            (waiting x) (rdy x) (starts x) (gate x) true (dlog x) (cons x) (res x)).
+                            (waiting x) (rdy x) (starts x) (gate x) true (dlog x) (cons x) (res x) (rerr x) (rfl x)).
 Proof.
   intros H. open_base H.
-  constructor; cbn [ph t0 sp errs perr dline queue launch waiting rdy starts gate woken dlog cons res];
+  constructor; cbn [ph t0 sp errs perr dline queue launch waiting rdy starts gate woken dlog cons res rerr rfl];
     unfold es in *; cbn [launch]; try assumption.
   intros _ _. reflexivity.
 Qed.
@@ -468,19 +500,20 @@ Qed.
 (* ---------- an attempt task makes its inner call ---------- *)
 Lemma call_inner_ok c i now n x k :
   Cbase c i now n 1 x -> Cdlv x -> Bwk c now x ->
-  (k < length (launch x))%nat -> ~ In k (waiting x) -> ~ In k (map fst (starts x)) ->
+  (k < length (launch x))%nat -> ~ In k (waiting x) -> ~ In k (map fst (starts x)) -> ~ In k (rfl x) ->
   (starts x = [] -> k = 0%nat /\ nth 0 (launch x) 0 = now) ->
-  (gated c = false -> k = length (starts x) /\ nth k (launch x) 0 = now) ->
+  (gated c = false -> nth k (launch x) 0 = now /\ (forall k' s', In (k', s') (starts x) -> (k' < k)%nat) /\
+                      (rfl x = [] -> k = length (starts x))) ->
   Cfull c i now n (call_inner i now x k).
 Proof.
-  intros H Hd Hb K1 K2 K3 K4 K5. unfold call_inner.
+  intros H Hd Hb K1 K2 K3 K6 K4 K5. unfold call_inner.
   set (x1 := mkCall (ph x) (t0 x) (sp x) (errs x) (perr x) (dline x) (queue x) (launch x) (waiting x)
-                    (rdy x) (starts x ++ [(k, now)]) (gate x) (woken x) (dlog x) (cons x) (res x)).
+                    (rdy x) (starts x ++ [(k, now)]) (gate x) (woken x) (dlog x) (cons x) (res x) (rerr x) (rfl x)).
   assert (Hkn : nth k (launch x) 0 <= now).
   { pose proof (b_le _ _ _ _ _ _ H) as Hle. rewrite Forall_forall in Hle. apply Hle. apply nth_In. exact K1. }
   assert (H1 : Cbase c i now n 0 x1).
   { open_base H.
-    constructor; unfold x1; cbn [ph t0 sp errs perr dline queue launch waiting rdy starts gate woken dlog cons res];
+    constructor; unfold x1; cbn [ph t0 sp errs perr dline queue launch waiting rdy starts gate woken dlog cons res rerr rfl];
       unfold es in *; cbn [launch]; try assumption.
     - rewrite app_length. cbn. lia.
     - rewrite map_app. cbn. apply nodup_snoc; assumption.
@@ -496,13 +529,25 @@ Proof.
       rewrite app_length in H0. cbn in H0.
       destruct (Nat.eq_dec n0 (length (starts x))) as [->|Hne].
       + rewrite nth_error_app2 in E by lia. rewrite Nat.sub_diag in E. cbn in E. injection E as <- <-.
-        destruct (K5 G) as [K51 K52]. rewrite <- K51. split; [reflexivity|symmetry; exact K52].
+        destruct (K5 G) as (K51 & _ & K53). split; [symmetry; exact K51|exact K53].
       + rewrite nth_error_app1 in E by lia. apply (g_seq _ _ _ _ _ _ H G n0 k' s' E).
-    - intros m tau Hin. destruct (c_ent _ _ _ _ _ _ H m tau Hin) as (n0 & s & E1 & E2).
-      exists n0, s. split; [|exact E2]. rewrite nth_error_app1; [exact E1|].
-      apply nth_error_Some. congruence.
+    - intros m tau Hin. destruct (c_ent _ _ _ _ _ _ H m tau Hin) as [(n0 & s & E1 & E2)|R].
+      + ent. left. exists n0, s. split; [|exact E2]. rewrite nth_error_app1; [exact E1|].
+        apply nth_error_Some. congruence.
+      + ent. right. exact R.
     - intros e tau E. exfalso. destruct (e_fail _ _ _ _ _ _ H e tau E) as (F0 & F1 & _).
-      pose proof (s_cnt _ _ _ _ _ _ H). lia. }
+      pose proof (s_cnt _ _ _ _ _ _ H). lia.
+    - intros k' Hk'. destruct (r_in _ _ _ _ _ _ H k' Hk') as (R1 & R2 & R3).
+      split; [exact R1|]. split; [exact R2|].
+      rewrite map_app, in_app_iff. intros [Hin|[Hin|[]]]; [exact (R3 Hin)|]. cbn in Hin. subst k'. exact (K6 Hk').
+    - intros G n0 n1 k0 k1 s0 s1 Hlt E0 E1.
+      assert (n1 < length (starts x ++ [(k, now)]))%nat by (apply nth_error_Some; congruence).
+      rewrite app_length in H0. cbn in H0.
+      rewrite nth_error_app1 in E0 by lia.
+      destruct (Nat.eq_dec n1 (length (starts x))) as [->|Hne].
+      + rewrite nth_error_app2 in E1 by lia. rewrite Nat.sub_diag in E1. cbn in E1. injection E1 as <- <-.
+        destruct (K5 G) as (_ & K52 & _). apply (K52 k0 s0). apply (nth_error_In _ _ E0).
+      + rewrite nth_error_app1 in E1 by lia. apply (g_inc _ _ _ _ _ _ H G n0 n1 k0 k1 s0 s1 Hlt E0 E1). }
   assert (Hnew : nth_error (starts x1) (length (starts x)) = Some (k, now)).
   { unfold x1. cbn. rewrite nth_error_app2 by lia. rewrite Nat.sub_diag. reflexivity. }
   assert (Hold : forall n' k' s', n' <> length (starts x) -> nth_error (starts x1) n' = Some (k', s') ->
@@ -514,7 +559,7 @@ Proof.
   - apply (finish_ok c i now n x1 k (length (starts x)) now o); try assumption.
     + intros Hp n' k' s' o' Hne Hk' Hg' Ho'. apply (Hd Hp n' k' s' o'); try assumption.
       apply Hold; assumption.
-    + intros Hin. apply K3. apply (att_owner c i now n 1 x k H). exact Hin.
+    + intros Hin. destruct (att_owner c i now n 1 x k H Hin) as [A|A]; [exact (K3 A)|exact (K6 A)].
   - split; [exact H1|split; [|split]].
     + intros Hp n' k' s' o' Hk' Hg' Ho'.
       destruct (Nat.eq_dec n' (length (starts x))) as [->|Hne].
@@ -534,15 +579,15 @@ Lemma launched_base c i now n x wt h :
   Cbase c i now (S n) 0 x ->
   (wt = waiting x /\ h = 1%nat) \/
   (wt = waiting x ++ [length (launch x)] /\ h = 0%nat /\ (1 <= length (launch x))%nat /\
-   rdy x (length (launch x)) = false) ->
+   rdy x (length (launch x)) = false /\ rerr x (length (launch x)) = false) ->
   Cbase c i now n h (mkCall (ph x) (t0 x) (sp x) (errs x) (perr x) (dline x) (queue x)
                             (launch x ++ [now]) wt (rdy x) (starts x) (gate x) (woken x)
-                            (dlog x) (cons x) (res x)).
+                            (dlog x) (cons x) (res x) (rerr x) (rfl x)).
 Proof.
   intros H Hw. open_base H.
   assert (Hwl : forall k, In k (waiting x) -> (k < length (launch x))%nat).
   { intros k Hk. destruct (w_in _ _ _ _ _ _ H k Hk) as [E _]. lia. }
-  constructor; cbn [ph t0 sp errs perr dline queue launch waiting rdy starts gate woken dlog cons res];
+  constructor; cbn [ph t0 sp errs perr dline queue launch waiting rdy starts gate woken dlog cons res rerr rfl];
     unfold es in *; cbn [launch]; rewrite ?(es_shift now n x _ eq_refl); unfold es; try assumption.
   - rewrite app_length. cbn. lia.
   - apply Forall_app. split; [assumption|]. constructor; [lia|constructor].
@@ -560,33 +605,156 @@ Proof.
     destruct Hw as [[_ ->]|(_ & -> & Hl & _)]; [lia|].
     pose proof (s_pr _ _ _ _ _ _ H Hl). lia.
   - intros k Hk. rewrite app_length. cbn [length].
-    destruct Hw as [[-> _]|(-> & _ & Hl & Hr)].
+    destruct Hw as [[-> _]|(-> & _ & Hl & Hr & _)].
     + destruct (w_in _ _ _ _ _ _ H k Hk) as [E1 E2]. split; [lia|exact E2].
     + apply in_app_or in Hk. destruct Hk as [Hk|[<-|[]]].
       * destruct (w_in _ _ _ _ _ _ H k Hk) as [E1 E2]. split; [lia|exact E2].
       * split; [lia|exact Hr].
   - destruct Hw as [[-> _]|(-> & _)]; [exact (w_nd _ _ _ _ _ _ H)|].
     apply nodup_snoc; [exact (w_nd _ _ _ _ _ _ H)|]. intros Hin. specialize (Hwl _ Hin). lia.
-  - intros G n0 k s E. destruct (g_seq _ _ _ _ _ _ H G n0 k s E) as [E1 E2]. split; [exact E1|].
-    destruct (s_in _ _ _ _ _ _ H k s (nth_error_In _ _ E)) as (E3 & _). subst k.
-    rewrite app_nth1 by exact E3. exact E2.
+  - intros G n0 k s E. destruct (g_seq _ _ _ _ _ _ H G n0 k s E) as [E1 E2]. split; [|exact E2].
+    destruct (s_in _ _ _ _ _ _ H k s (nth_error_In _ _ E)) as (E3 & _).
+    rewrite app_nth1 by exact E3. exact E1.
+  - intros m tau Hin. destruct (c_ent _ _ _ _ _ _ H m tau Hin) as [L|(R1 & R2 & R3 & R4)]; ent; [left; exact L|right].
+    destruct (r_in _ _ _ _ _ _ H _ R1) as (Q1 & _). rewrite app_nth1 by lia. repeat split; assumption || lia.
   - intros e tau E. exfalso. destruct (e_fail _ _ _ _ _ _ H e tau E) as (F0 & _).
     pose proof (a_len _ _ _ _ _ _ H). pose proof (a_max _ _ _ _ _ _ H). lia.
+  - intros k Hk. destruct Hw as [[-> _]|(-> & _ & _ & _ & Hre)]; [apply (w_ne _ _ _ _ _ _ H k Hk)|].
+    apply in_app_or in Hk. destruct Hk as [Hk|[<-|[]]]; [apply (w_ne _ _ _ _ _ _ H k Hk)|exact Hre].
+  - intros k Hk. destruct (r_in _ _ _ _ _ _ H k Hk) as (Q1 & Q2 & Q3). rewrite app_length. cbn [length].
+    split; [lia|]. split; [|exact Q3].
+    destruct Hw as [[-> _]|(-> & _)]; [exact Q2|].
+    rewrite in_app_iff. intros [Hin'|[Hin'|[]]]; [exact (Q2 Hin')|lia].
+Qed.
+
+(* ---------- a launched hedge task learns that its clone's poll_ready failed ---------- *)
+Lemma fail_push_ok c i now n x k :
+  Cbase c i now n 1 x -> Cdlv x -> pending x ->
+  (1 <= k < length (launch x))%nat -> ~ In k (waiting x) -> ~ In k (map fst (starts x)) -> ~ In k (rfl x) ->
+  (1 <= length (starts x))%nat ->
+  Cfull c i now n
+    (mkCall (ph x) (t0 x) (sp x) (errs x) (perr x) (dline x) (queue x ++ [(k, false, rval i k)])
+            (launch x) (waiting x) (rdy x) (starts x) (gate x) true
+            (dlog x ++ [((k, false, rval i k), now)]) (cons x) (res x) (rerr x) (rfl x ++ [k])).
+Proof.
+  intros H Hd Hp K1 K2 K3 K6 K7.
+  assert (Hnd : ph x <> Done) by (apply pending_not_done; exact Hp).
+  assert (Hkn : nth k (launch x) 0 <= now).
+  { pose proof (b_le _ _ _ _ _ _ H) as Hle. rewrite Forall_forall in Hle. apply Hle. apply nth_In. lia. }
+  assert (Hnin : ~ In k (map att (dlog x))).
+  { intros Hin. destruct (att_owner c i now n 1 x k H Hin) as [A|A]; [exact (K3 A)|exact (K6 A)]. }
+  pose proof (s_cnt _ _ _ _ _ _ H) as Hcnt.
+  split; [|split; [|split]].
+  - open_base H.
+    constructor; cbn [ph t0 sp errs perr dline queue launch waiting rdy starts gate woken dlog cons res rerr rfl];
+      unfold es in *; cbn [launch]; try assumption.
+    + intros E. destruct Hp as [Hp|Hp]; congruence.
+    + rewrite app_length. cbn. lia.
+    + intros _. lia.
+    + intros G n0 k' s' E. destruct (g_seq _ _ _ _ _ _ H G n0 k' s' E) as [E1 _]. split; [exact E1|].
+      intros Er. destruct (rfl x); discriminate.
+    + rewrite map_app, (c_log _ _ _ _ _ _ H), <- app_assoc. reflexivity.
+    + intros m tau Hin. apply in_app_or in Hin. destruct Hin as [Hin|[Hin|[]]].
+      * destruct (c_ent _ _ _ _ _ _ H m tau Hin) as [L|(R1 & R2)]; ent; [left; exact L|right].
+        split; [apply in_or_app; left; exact R1|exact R2].
+      * injection Hin as <- <-. ent. right. cbn. split; [apply in_or_app; right; left; reflexivity|].
+        repeat split; try reflexivity; lia.
+    + rewrite map_app. cbn. apply nodup_snoc; [apply (c_nd _ _ _ _ _ _ H)|exact Hnin].
+    + intros _ _. reflexivity.
+    + intros v0 tau E. destruct (e_res _ _ _ _ _ _ H _ _ _ E) as [E1 _]. contradiction.
+    + intros v0 tau E. destruct (e_res _ _ _ _ _ _ H _ _ _ E) as [E1 _]. contradiction.
+    + intros Hl v0 tau Hin Hlt. apply in_app_or in Hin. destruct Hin as [Hin|[Hin|[]]].
+      * apply (f_one _ _ _ _ _ _ H Hl _ _ Hin Hlt).
+      * discriminate Hin.
+    + intros k' Hk'. apply in_app_or in Hk'. destruct Hk' as [Hk'|[<-|[]]].
+      * apply (r_in _ _ _ _ _ _ H k' Hk').
+      * split; [exact K1|]. split; assumption.
+    + apply nodup_snoc; [apply (r_nd _ _ _ _ _ _ H)|exact K6].
+    + intros _ k' Hk'. rewrite map_app, in_app_iff. apply in_app_or in Hk'. destruct Hk' as [Hk'|[<-|[]]].
+      * left. apply (r_dlv _ _ _ _ _ _ H Hp k' Hk').
+      * right. left. reflexivity.
+  - intros _ n' k' s' o' Hk' Hg' Ho'. cbn [starts gate dlog] in *. rewrite map_app, in_app_iff.
+    left. apply (Hd Hp n' k' s' o' Hk' Hg' Ho').
+  - intros _ _. reflexivity.
+  - intros _ _ _. reflexivity.
+Qed.
+
+Lemma fail_skip_ok c i now n x k :
+  Cbase c i now n 1 x ->
+  (1 <= k < length (launch x))%nat -> ~ In k (waiting x) -> ~ In k (map fst (starts x)) -> ~ In k (rfl x) ->
+  (1 <= length (starts x))%nat -> ~ pending x ->
+  Cfull c i now n
+            (mkCall (ph x) (t0 x) (sp x) (errs x) (perr x) (dline x) (queue x) (launch x) (waiting x)
+                    (rdy x) (starts x) (gate x) (woken x) (dlog x) (cons x) (res x) (rerr x) (rfl x ++ [k])).
+Proof.
+  intros H K1 K2 K3 K6 K7 Hn.
+  { pose proof (s_cnt _ _ _ _ _ _ H) as Hcnt. split; [|split; [|split]].
+    - open_base H.
+      constructor; cbn [ph t0 sp errs perr dline queue launch waiting rdy starts gate woken dlog cons res rerr rfl];
+        unfold es in *; cbn [launch]; try assumption.
+      + rewrite app_length. cbn. lia.
+      + intros _. lia.
+      + intros G n0 k' s' E. destruct (g_seq _ _ _ _ _ _ H G n0 k' s' E) as [E1 _]. split; [exact E1|].
+        intros Er. destruct (rfl x); discriminate.
+      + intros m tau Hin. destruct (c_ent _ _ _ _ _ _ H m tau Hin) as [L|(R1 & R2)]; ent; [left; exact L|right].
+        split; [apply in_or_app; left; exact R1|exact R2].
+      + intros e tau E. exfalso. destruct (e_fail _ _ _ _ _ _ H e tau E) as (F0 & F1 & _). lia.
+      + intros k' Hk'. apply in_app_or in Hk'. destruct Hk' as [Hk'|[<-|[]]].
+        * apply (r_in _ _ _ _ _ _ H k' Hk').
+        * split; [exact K1|]. split; assumption.
+      + apply nodup_snoc; [apply (r_nd _ _ _ _ _ _ H)|exact K6].
+      + intros Hp. contradiction.
+    - intros Hp. contradiction.
+    - intros E. exfalso. apply Hn. right. exact E.
+    - intros E. exfalso. apply Hn. left. exact E. }
+Qed.
+
+Lemma fail_ready_ok c i now n x k :
+  Cbase c i now n 1 x -> Cdlv x -> Bwk c now x ->
+  (1 <= k < length (launch x))%nat -> ~ In k (waiting x) -> ~ In k (map fst (starts x)) -> ~ In k (rfl x) ->
+  (1 <= length (starts x))%nat ->
+  Cfull c i now n (fail_ready i now x k).
+Proof.
+  intros H Hd Hb K1 K2 K3 K6 K7.
+  unfold fail_ready. destruct (ph x) eqn:P.
+  - rewrite <- P. apply fail_skip_ok; try assumption. intros [E|E]; congruence.
+  - rewrite <- P. apply fail_push_ok; try assumption. left. exact P.
+  - rewrite <- P. apply fail_push_ok; try assumption. right. exact P.
+  - rewrite <- P. apply fail_skip_ok; try assumption. intros [E|E]; congruence.
+  - rewrite <- P. apply fail_skip_ok; try assumption. intros [E|E]; congruence.
 Qed.
 
 Lemma launch_ok c i now n x : Cfull c i now (S n) x -> Cfull c i now n (launch_task i now x).
 Proof.
   intros (H & Hd & Hc & Hb). unfold launch_task.
   pose proof (s_cnt _ _ _ _ _ _ H) as Hcnt.
+  assert (Hns : ~ In (length (launch x)) (map fst (starts x))).
+  { intros Hin. apply in_map_iff in Hin. destruct Hin as [[k s] [E Hin]]. cbn in E. subst k.
+    destruct (s_in _ _ _ _ _ _ H _ _ Hin) as [E _]. lia. }
+  assert (Hnw : ~ In (length (launch x)) (waiting x)).
+  { intros Hin. destruct (w_in _ _ _ _ _ _ H _ Hin) as [E _]. lia. }
+  assert (Hnr : ~ In (length (launch x)) (rfl x)).
+  { intros Hin. destruct (r_in _ _ _ _ _ _ H _ Hin) as [E _]. lia. }
+  destruct (negb (Nat.eqb (length (launch x)) 0) && rerr x (length (launch x))) eqn:RE.
+  { apply andb_true_iff in RE. destruct RE as [RE1 RE2]. apply Bool.negb_true_iff in RE1. apply Nat.eqb_neq in RE1.
+    apply fail_ready_ok.
+    - apply launched_base; [exact H|]. left. split; reflexivity.
+    - exact Hd.
+    - exact Hb.
+    - cbn. rewrite app_length. cbn. lia.
+    - exact Hnw.
+    - exact Hns.
+    - exact Hnr.
+    - cbn. pose proof (s_pr _ _ _ _ _ _ H ltac:(lia)). lia. }
   destruct (Nat.eqb (length (launch x)) 0 || rdy x (length (launch x))) eqn:R.
   - apply call_inner_ok.
     + apply launched_base; [exact H|]. left. split; reflexivity.
     + exact Hd.
     + exact Hb.
     + cbn. rewrite app_length. cbn. lia.
-    + cbn. intros Hin. destruct (w_in _ _ _ _ _ _ H _ Hin) as [E _]. lia.
-    + cbn. intros Hin. apply in_map_iff in Hin. destruct Hin as [[k s] [E Hin]]. cbn in E. subst k.
-      destruct (s_in _ _ _ _ _ _ H _ _ Hin) as [E _]. lia.
+    + exact Hnw.
+    + exact Hns.
+    + exact Hnr.
     + cbn. intros Es. destruct (Nat.eq_dec (length (launch x)) 0) as [E|E].
       * split; [exact E|]. apply length_zero_iff_nil in E. rewrite E. reflexivity.
       * exfalso. pose proof (s_pr _ _ _ _ _ _ H ltac:(lia)) as P. rewrite Es in P. cbn in P. lia.
@@ -595,9 +763,14 @@ Proof.
       { destruct (waiting x) as [|k0 l] eqn:Ew; [reflexivity|exfalso].
         destruct (w_in _ _ _ _ _ _ H k0) as [_ E]; [rewrite Ew; left; reflexivity|].
         rewrite (g_off _ _ _ _ _ _ H G k0) in E. discriminate. }
-      rewrite Ew in Hcnt. cbn in Hcnt. split; [lia|].
-      rewrite app_nth2 by lia. rewrite Nat.sub_diag. reflexivity.
+      rewrite Ew in Hcnt. cbn in Hcnt. split; [|split].
+      * rewrite app_nth2 by lia. rewrite Nat.sub_diag. reflexivity.
+      * intros k' s' Hin. destruct (s_in _ _ _ _ _ _ H _ _ Hin) as [E _]. exact E.
+      * intros Er. rewrite Er in Hcnt. cbn in Hcnt. lia.
   - apply orb_false_iff in R. destruct R as [R1 R2]. apply Nat.eqb_neq in R1.
+    assert (R3 : rerr x (length (launch x)) = false).
+    { apply andb_false_iff in RE. destruct RE as [RE|RE]; [|exact RE].
+      apply Bool.negb_false_iff in RE. apply Nat.eqb_eq in RE. contradiction. }
     split; [|split; [|split]].
     + apply launched_base; [exact H|]. right. repeat split; try assumption; lia.
     + exact Hd.
@@ -628,24 +801,34 @@ Proof.
   unfold call_inner. destruct (gate y (length (starts y))).
   - destruct (finish_frame i now
       (mkCall (ph y) (t0 y) (sp y) (errs y) (perr y) (dline y) (queue y) (launch y) (waiting y)
-              (rdy y) (starts y ++ [(k, now)]) (gate y) (woken y) (dlog y) (cons y) (res y))
+              (rdy y) (starts y ++ [(k, now)]) (gate y) (woken y) (dlog y) (cons y) (res y) (rerr y) (rfl y))
       k (length (starts y)) o) as (E1 & E2 & E3 & E4).
     rewrite E1, E2, E3, E4. repeat split.
   - repeat split.
 Qed.
 
+Lemma fail_ready_frame i now y k :
+  launch (fail_ready i now y k) = launch y /\ res (fail_ready i now y k) = res y /\
+  starts (fail_ready i now y k) = starts y /\ rdy (fail_ready i now y k) = rdy y.
+Proof. unfold fail_ready. destruct (ph y); repeat split. Qed.
+
 Lemma launch_task_frame i now y :
   launch (launch_task i now y) = launch y ++ [now] /\ res (launch_task i now y) = res y /\
   rdy (launch_task i now y) = rdy y /\
   starts (launch_task i now y) =
-    if Nat.eqb (length (launch y)) 0 || rdy y (length (launch y))
+    if negb (Nat.eqb (length (launch y)) 0) && rerr y (length (launch y)) then starts y
+    else if Nat.eqb (length (launch y)) 0 || rdy y (length (launch y))
     then starts y ++ [(length (launch y), now)] else starts y.
 Proof.
-  unfold launch_task. destruct (Nat.eqb (length (launch y)) 0 || rdy y (length (launch y))).
-  - match goal with |- context [call_inner i now ?z ?k] =>
-      destruct (call_inner_frame i now z k) as (E1 & E2 & E3 & E4) end.
+  unfold launch_task. destruct (negb (Nat.eqb (length (launch y)) 0) && rerr y (length (launch y))).
+  - match goal with |- context [fail_ready i now ?z ?k] =>
+      destruct (fail_ready_frame i now z k) as (E1 & E2 & E3 & E4) end.
     rewrite E1, E2, E3, E4. repeat split.
-  - repeat split.
+  - destruct (Nat.eqb (length (launch y)) 0 || rdy y (length (launch y))).
+    + match goal with |- context [call_inner i now ?z ?k] =>
+        destruct (call_inner_frame i now z k) as (E1 & E2 & E3 & E4) end.
+      rewrite E1, E2, E3, E4. repeat split.
+    + repeat split.
 Qed.
 
 Lemma run_tasks_launch i now n : forall x, launch (run_tasks i now n x) = launch x ++ repeat now n.
@@ -662,12 +845,12 @@ Qed.
 
 (* ---------- the script completes an inner call ---------- *)
 Lemma failed_spec_gate c i x x' e tau :
-  launch x' = launch x -> starts x' = starts x -> dlog x' = dlog x ->
+  launch x' = launch x -> starts x' = starts x -> dlog x' = dlog x -> rfl x' = rfl x ->
   (forall k o, gate x k = Some o -> gate x' k = Some o) ->
   failed_spec c i x e tau -> failed_spec c i x' e tau.
 Proof.
-  intros E0 E1 E2 Hg (F0 & F1 & F2 & F3 & F4). unfold failed_spec. rewrite E0, E1, E2.
-  split; [exact F0|]. split; [exact F1|]. split; [|split; [|exact F4]].
+  intros E0 E1 E2 E3 Hg (F0 & F1 & F2 & FR & F3 & F4). unfold failed_spec. rewrite E0, E1, E2, E3.
+  split; [exact F0|]. split; [exact F1|]. split; [|split; [exact FR|split; [|exact F4]]].
   - intros k Hk. destruct (F2 k Hk) as (o & G & R). exists o. split; [apply Hg; exact G|exact R].
   - intros L M. destruct (F3 L M) as [R1 R2]. split; [exact R1|]. intros k Hk. apply Hg. apply R2. exact Hk.
 Qed.
@@ -679,27 +862,30 @@ Proof.
   destruct (gate x n0) eqn:G; [exact (conj H (conj Hd (conj Hc Hb)))|].
   set (x1 := mkCall (ph x) (t0 x) (sp x) (errs x) (perr x) (dline x) (queue x) (launch x) (waiting x)
                     (rdy x) (starts x) (fun j => if Nat.eqb j n0 then Some o else gate x j) (woken x)
-                    (dlog x) (cons x) (res x)).
+                    (dlog x) (cons x) (res x) (rerr x) (rfl x)).
   assert (Hg : forall j o', gate x j = Some o' -> gate x1 j = Some o').
   { intros j o' Gj. unfold x1. cbn. destruct (Nat.eqb_spec j n0) as [->|_]; [congruence|exact Gj]. }
   assert (Hg2 : forall j, j <> n0 -> gate x1 j = gate x j).
   { intros j Hj. unfold x1. cbn. apply Nat.eqb_neq in Hj. rewrite Hj. reflexivity. }
   assert (H1 : Cbase c i now 0 0 x1).
   { open_base H.
-    constructor; unfold x1; cbn [ph t0 sp errs perr dline queue launch waiting rdy starts gate woken dlog cons res];
+    constructor; unfold x1; cbn [ph t0 sp errs perr dline queue launch waiting rdy starts gate woken dlog cons res rerr rfl];
       unfold es in *; cbn [launch]; try assumption.
-    - intros m tau Hin. destruct (c_ent _ _ _ _ _ _ H m tau Hin) as (n1 & s & E1 & E2 & E3).
-      exists n1, s. split; [exact E1|]. split; [apply (Hg _ _ E2)|exact E3].
+    - intros m tau Hin. destruct (c_ent _ _ _ _ _ _ H m tau Hin) as [(n1 & s & E1 & E2 & E3)|R]; ent.
+      + left. exists n1, s. split; [exact E1|]. split; [apply (Hg _ _ E2)|exact E3].
+      + right. exact R.
     - intros e tau E. apply (failed_spec_gate c i x); try reflexivity; [exact Hg|].
       apply (e_fail _ _ _ _ _ _ H). exact E. }
   destruct (nth_error (starts x) n0) as [[k s]|] eqn:K.
   - apply (finish_ok c i now 0 x1 k n0 s o); try assumption.
     + intros Hp n' k' s' o' Hne Hk' Hg' Ho'. rewrite (Hg2 n' Hne) in Hg'. apply (Hd Hp n' k' s' o'); assumption.
     + unfold x1. cbn. rewrite Nat.eqb_refl. reflexivity.
-    + intros Hin. apply in_map_iff in Hin. destruct Hin as [[m tau] [E Hin]].
-      destruct (c_ent _ _ _ _ _ _ H m tau Hin) as (n1 & s1 & E1 & E2 & _). unfold att in E. cbn in E.
-      rewrite E in E1.
-      pose proof (owner_inj (starts x) (s_nd _ _ _ _ _ _ H) n1 n0 k s1 s E1 K). congruence.
+    + intros Hin. apply in_map_iff in Hin. destruct Hin as [[m tau] [E Hin]]. unfold att in E. cbn in E.
+      destruct (c_ent _ _ _ _ _ _ H m tau Hin) as [(n1 & s1 & E1 & E2 & _)|(R1 & _)].
+      * rewrite E in E1.
+        pose proof (owner_inj (starts x) (s_nd _ _ _ _ _ _ H) n1 n0 k s1 s E1 K). congruence.
+      * rewrite E in R1. destruct (r_in _ _ _ _ _ _ H k R1) as (_ & _ & Q). apply Q.
+        apply in_map_iff. exists (k, s). split; [reflexivity|apply (nth_error_In _ _ K)].
   - split; [exact H1|split; [|split]].
     + intros Hp n' k' s' o' Hk' Hg' Ho'. unfold x1 in Hk'. cbn in Hk'.
       rewrite (Hg2 n') in Hg' by congruence. apply (Hd Hp n' k' s' o'); assumption.
@@ -719,11 +905,11 @@ Proof.
   destruct (rdy x k) eqn:R; [exact (conj H (conj Hd (conj Hc Hb)))|].
   set (x1 := mkCall (ph x) (t0 x) (sp x) (errs x) (perr x) (dline x) (queue x) (launch x)
                     (remove_id k (waiting x)) (fun j => if Nat.eqb j k then true else rdy x j)
-                    (starts x) (gate x) (woken x) (dlog x) (cons x) (res x)).
-  assert (Hb1 : forall h, (length (starts x) + length (remove_id k (waiting x)) + h = length (launch x))%nat ->
+                    (starts x) (gate x) (woken x) (dlog x) (cons x) (res x) (rerr x) (rfl x)).
+  assert (Hb1 : forall h, (length (starts x) + length (remove_id k (waiting x)) + length (rfl x) + h = length (launch x))%nat ->
                 Cbase c i now 0 h x1).
   { intros h Hh. open_base H.
-    constructor; unfold x1; cbn [ph t0 sp errs perr dline queue launch waiting rdy starts gate woken dlog cons res];
+    constructor; unfold x1; cbn [ph t0 sp errs perr dline queue launch waiting rdy starts gate woken dlog cons res rerr rfl];
       unfold es in *; cbn [launch]; try assumption.
     - intros k' s' Hin. destruct (s_in _ _ _ _ _ _ H k' s' Hin) as (E1 & E2 & E3).
       split; [exact E1|]. split; [|exact E3]. intros Hin'. apply in_remove_id in Hin'. apply E2. apply Hin'.
@@ -732,7 +918,10 @@ Proof.
       destruct (w_in _ _ _ _ _ _ H k' Hk') as [E1 E2]. split; [exact E1|].
       apply Nat.eqb_neq in Hne. rewrite Hne. exact E2.
     - apply NoDup_filter. exact (w_nd _ _ _ _ _ _ H).
-    - intros G k'. destruct (Nat.eqb k' k); [reflexivity|apply (g_off _ _ _ _ _ _ H G)]. }
+    - intros G k'. destruct (Nat.eqb k' k); [reflexivity|apply (g_off _ _ _ _ _ _ H G)].
+    - intros k' Hk'. apply in_remove_id in Hk'. destruct Hk' as [Hk' _]. apply (w_ne _ _ _ _ _ _ H k' Hk').
+    - intros k' Hk'. destruct (r_in _ _ _ _ _ _ H k' Hk') as (Q1 & Q2 & Q3). split; [exact Q1|]. split; [|exact Q3].
+      intros Hin'. apply in_remove_id in Hin'. apply Q2. apply Hin'. }
   pose proof (s_cnt _ _ _ _ _ _ H) as Hcnt.
   destruct (mem k (waiting x)) eqn:M.
   - apply mem_In in M. destruct (w_in _ _ _ _ _ _ H k M) as [K1 _].
@@ -745,9 +934,60 @@ Proof.
     + unfold x1. cbn. intros Hin. apply in_remove_id in Hin. destruct Hin as [_ Hin]. congruence.
     + unfold x1. cbn. intros Hin. apply in_map_iff in Hin. destruct Hin as [[k' s] [E Hin]]. cbn in E. subst k'.
       destruct (s_in _ _ _ _ _ _ H _ _ Hin) as (_ & E & _). contradiction.
+    + unfold x1. cbn. intros Hin. destruct (r_in _ _ _ _ _ _ H k Hin) as (_ & Q & _). contradiction.
     + unfold x1. cbn. intros Es. exfalso.
       pose proof (s_pr _ _ _ _ _ _ H ltac:(lia)) as P. rewrite Es in P. cbn in P. lia.
     + intros G. rewrite (g_off _ _ _ _ _ _ H G k) in R. discriminate.
+  - assert (Hn : ~ In k (waiting x)).
+    { intros Hin. apply mem_In in Hin. congruence. }
+    pose proof (remove_id_notin k (waiting x) Hn) as Er.
+    split; [apply Hb1; rewrite Er; lia|split; [|split]].
+    + exact Hd.
+    + intros E Cl. apply (Hc E). apply closed_spec. apply closed_spec in Cl.
+      destruct Cl as (C1 & C2 & C3). unfold x1 in C1, C2, C3. cbn in C1, C2, C3. rewrite Er in C2.
+      split; [exact C1|]. split; [exact C2|exact C3].
+    + exact Hb.
+Qed.
+
+(* ---------- the script makes a clone's poll_ready fail ---------- *)
+Lemma readyerr_ok c i now x k :
+  Cfull c i now 0 x -> Cfull c i now 0 (readyerr_call i now x k).
+Proof.
+  intros (H & Hd & Hc & Hb). unfold readyerr_call.
+  destruct (rerr x k) eqn:R; [exact (conj H (conj Hd (conj Hc Hb)))|].
+  set (x1 := mkCall (ph x) (t0 x) (sp x) (errs x) (perr x) (dline x) (queue x) (launch x)
+                    (remove_id k (waiting x)) (rdy x)
+                    (starts x) (gate x) (woken x) (dlog x) (cons x) (res x)
+                    (fun j => if Nat.eqb j k then true else rerr x j) (rfl x)).
+  assert (Hb1 : forall h, (length (starts x) + length (remove_id k (waiting x)) + length (rfl x) + h = length (launch x))%nat ->
+                Cbase c i now 0 h x1).
+  { intros h Hh. open_base H.
+    constructor; unfold x1; cbn [ph t0 sp errs perr dline queue launch waiting rdy starts gate woken dlog cons res rerr rfl];
+      unfold es in *; cbn [launch]; try assumption.
+    - intros k' s' Hin. destruct (s_in _ _ _ _ _ _ H k' s' Hin) as (E1 & E2 & E3).
+      split; [exact E1|]. split; [|exact E3]. intros Hin'. apply in_remove_id in Hin'. apply E2. apply Hin'.
+    - intros Hl. pose proof (s_pr _ _ _ _ _ _ H Hl). lia.
+    - intros k' Hk'. apply in_remove_id in Hk'. destruct Hk' as [Hk' Hne].
+      apply (w_in _ _ _ _ _ _ H k' Hk').
+    - apply NoDup_filter. exact (w_nd _ _ _ _ _ _ H).
+    - intros k' Hk'. apply in_remove_id in Hk'. destruct Hk' as [Hk' Hne].
+      apply Nat.eqb_neq in Hne. rewrite Hne. apply (w_ne _ _ _ _ _ _ H k' Hk').
+    - intros k' Hk'. destruct (r_in _ _ _ _ _ _ H k' Hk') as (Q1 & Q2 & Q3). split; [exact Q1|]. split; [|exact Q3].
+      intros Hin'. apply in_remove_id in Hin'. apply Q2. apply Hin'. }
+  pose proof (s_cnt _ _ _ _ _ _ H) as Hcnt.
+  destruct (mem k (waiting x)) eqn:M.
+  - apply mem_In in M. destruct (w_in _ _ _ _ _ _ H k M) as [K1 _].
+    pose proof (length_remove_id k (waiting x) (w_nd _ _ _ _ _ _ H) M) as L.
+    apply fail_ready_ok.
+    + apply Hb1. lia.
+    + exact Hd.
+    + exact Hb.
+    + unfold x1. cbn. lia.
+    + unfold x1. cbn. intros Hin. apply in_remove_id in Hin. destruct Hin as [_ Hin]. congruence.
+    + unfold x1. cbn. intros Hin. apply in_map_iff in Hin. destruct Hin as [[k' s] [E Hin]]. cbn in E. subst k'.
+      destruct (s_in _ _ _ _ _ _ H _ _ Hin) as (_ & E & _). contradiction.
+    + unfold x1. cbn. intros Hin. destruct (r_in _ _ _ _ _ _ H k Hin) as (_ & Q & _). contradiction.
+    + unfold x1. cbn. pose proof (s_pr _ _ _ _ _ _ H ltac:(lia)) as P. lia.
   - assert (Hn : ~ In k (waiting x)).
     { intros Hin. apply mem_In in Hin. congruence. }
     pose proof (remove_id_notin k (waiting x) Hn) as Er.
@@ -765,14 +1005,14 @@ Proof.
   intros (H & Hd & Hc & Hb).
   assert (Hgo : ph x <> Done -> Cfull c i now 0
             (mkCall Dropped (t0 x) (sp x) (errs x) (perr x) (dline x) (queue x) (launch x) (waiting x)
-                    (rdy x) (starts x) (gate x) false (dlog x) (cons x) (res x))).
+                    (rdy x) (starts x) (gate x) false (dlog x) (cons x) (res x) (rerr x) (rfl x))).
   { intros Hnd.
     assert (Hnp : forall y, ph y = Dropped -> ~ pending y) by (intros y E [P|P]; congruence).
     assert (Hres : forall r0 v0 tau, res x <> Some (r0, v0, tau)).
     { intros r0 v0 tau E. destruct (e_res _ _ _ _ _ _ H _ _ _ E) as [E1 _]. contradiction. }
     split; [|split; [|split]].
     - open_base H.
-      constructor; cbn [ph t0 sp errs perr dline queue launch waiting rdy starts gate woken dlog cons res];
+      constructor; cbn [ph t0 sp errs perr dline queue launch waiting rdy starts gate woken dlog cons res rerr rfl];
         unfold es in *; cbn [launch]; try assumption; try (intros; discriminate);
         try (intros P; exfalso; revert P; apply Hnp; reflexivity);
         try (intros ? ? E; exfalso; revert E; apply Hres);
@@ -790,13 +1030,14 @@ Lemma advance_ok c i now t1 x :
 Proof.
   intros Ht (H & Hd & Hc & Hb). unfold advance_call. split; [|split; [|split]].
   - open_base H.
-    constructor; cbn [ph t0 sp errs perr dline queue launch waiting rdy starts gate woken dlog cons res];
+    constructor; cbn [ph t0 sp errs perr dline queue launch waiting rdy starts gate woken dlog cons res rerr rfl];
       unfold es in *; cbn [launch repeat] in *; try assumption.
     + eapply Forall_impl; [|exact (b_le _ _ _ _ _ _ H)]. cbn. intros; lia.
     + intros k s Hin. destruct (s_in _ _ _ _ _ _ H k s Hin) as (E1 & E2 & E3).
       repeat split; try assumption; lia.
-    + intros m tau Hin. destruct (c_ent _ _ _ _ _ _ H m tau Hin) as (n0 & s & E1 & E2 & E3 & E4).
-      exists n0, s. repeat split; try assumption; lia.
+    + intros m tau Hin. destruct (c_ent _ _ _ _ _ _ H m tau Hin) as [(n0 & s & E1 & E2 & E3 & E4)|(R1 & R2 & R3 & R4)]; ent.
+      * left. exists n0, s. repeat split; try assumption; lia.
+      * right. repeat split; try assumption; lia.
     + intros P Q. rewrite (d_wk _ _ _ _ _ _ H P Q). reflexivity.
     + intros r0 v0 tau E. destruct (e_res _ _ _ _ _ _ H r0 v0 tau E) as [E1 E2]. split; [exact E1|lia].
   - exact Hd.
@@ -823,7 +1064,7 @@ Proof.
   assert (Hnp : forall y, ph y = Done -> ~ pending y) by (intros y E [P|P]; congruence).
   split; [|split; [|split]].
   - open_base H.
-    constructor; cbn [ph t0 sp errs perr dline queue launch waiting rdy starts gate woken dlog cons res];
+    constructor; cbn [ph t0 sp errs perr dline queue launch waiting rdy starts gate woken dlog cons res rerr rfl];
       unfold es in *; cbn [launch]; try assumption; try (intros; discriminate);
       try (intros P; exfalso; revert P; apply Hnp; reflexivity).
     + rewrite (c_log _ _ _ _ _ _ H). exact Hlog.
@@ -842,11 +1083,12 @@ Proof.
   destruct Hin as [[m' tau] [E Hin]]. cbn in E. subst m'. exists tau. exact Hin.
 Qed.
 
-Lemma dlog_len c i now n h x : Cbase c i now n h x -> (length (dlog x) <= length (starts x))%nat.
+Lemma dlog_len c i now n h x :
+  Cbase c i now n h x -> (length (dlog x) <= length (starts x) + length (rfl x))%nat.
 Proof.
-  intros H. rewrite <- (map_length att), <- (map_length fst (starts x)).
+  intros H. rewrite <- (map_length att), <- (map_length fst (starts x)), <- app_length.
   apply NoDup_incl_length; [apply (c_nd _ _ _ _ _ _ H)|].
-  intros k Hk. apply (att_owner c i now n h x k H Hk).
+  intros k Hk. apply in_or_app. apply (att_owner c i now n h x k H Hk).
 Qed.
 
 (* the success case of both receive loops *)
@@ -864,7 +1106,7 @@ Proof.
   split; [|split; [exact Ht1|]].
   - rewrite (c_log _ _ _ _ _ _ H), Hq. rewrite find_skip by (apply (c_err _ _ _ _ _ _ H Hp)).
     rewrite find_skip by exact Hpre. reflexivity.
-  - destruct (c_ent _ _ _ _ _ _ H _ _ Ht1) as (n0 & s & _ & _ & _ & E). lia.
+  - destruct (c_ent _ _ _ _ _ _ H _ _ Ht1) as [(n0 & s & _ & _ & _ & E)|(_ & _ & _ & E)]; lia.
 Qed.
 
 Lemma spaced_extend c l now d :
@@ -886,38 +1128,68 @@ Qed.
 Lemma item_eta (m : item) : m = (it_att m, it_ok m, it_val m).
 Proof. destruct m as [[k ok] v]. reflexivity. Qed.
 
+(* a logged message of an attempt that made an inner call / that failed readiness *)
+Lemma log_of_start c i now n h x n0 k s m tk :
+  Cbase c i now n h x -> nth_error (starts x) n0 = Some (k, s) -> In (m, tk) (dlog x) -> it_att m = k ->
+  gate x n0 = Some (out_of (it_ok m)) /\ it_val m = val i n0 /\ tk <= now.
+Proof.
+  intros H K Hin E.
+  destruct (c_ent _ _ _ _ _ _ H m tk Hin) as [(n1 & s1 & E1 & E2 & E3 & E4)|(R1 & _)].
+  - rewrite E in E1.
+    pose proof (owner_inj (starts x) (s_nd _ _ _ _ _ _ H) n1 n0 k s1 s E1 K) as En. subst n1.
+    split; [exact E2|]. split; [exact E3|lia].
+  - exfalso. rewrite E in R1. destruct (r_in _ _ _ _ _ _ H k R1) as (_ & _ & Q). apply Q.
+    apply in_map_iff. exists (k, s). split; [reflexivity|apply (nth_error_In _ _ K)].
+Qed.
+
+Lemma log_of_rfail c i now n h x k m tk :
+  Cbase c i now n h x -> In k (rfl x) -> In (m, tk) (dlog x) -> it_att m = k ->
+  m = (k, false, rval i k) /\ tk <= now.
+Proof.
+  intros H K Hin E.
+  destruct (c_ent _ _ _ _ _ _ H m tk Hin) as [(n1 & s1 & E1 & _)|(R1 & R2 & R3 & R4)].
+  - exfalso. rewrite E in E1. destruct (r_in _ _ _ _ _ _ H k K) as (_ & _ & Q). apply Q.
+    apply in_map_iff. exists (k, s1). split; [reflexivity|apply (nth_error_In _ _ E1)].
+  - split; [|lia]. rewrite (item_eta m), E, R2, R3, E. reflexivity.
+Qed.
+
 (* every one of the max attempts has delivered an error *)
 Lemma all_errors c i now n x :
   Cbase c i now n 0 x -> Forall is_err (cons x ++ queue x) ->
   (maxa c <= length (cons x ++ queue x))%nat ->
-  length (launch x) = maxa c /\ length (starts x) = maxa c /\
-  forall n0, (n0 < maxa c)%nat ->
+  length (launch x) = maxa c /\ (length (starts x) + length (rfl x) = maxa c)%nat /\
+  (forall n0, (n0 < length (starts x))%nat ->
     exists k tk, In ((k, false, val i n0), tk) (dlog x) /\ gate x n0 = Some OErr /\ tk <= now /\
-                 (n0 = 0%nat -> k = 0%nat).
+                 (n0 = 0%nat -> k = 0%nat)) /\
+  (forall k, In k (rfl x) -> exists tk, In ((k, false, rval i k), tk) (dlog x) /\ tk <= now).
 Proof.
   intros H Herr Hlen.
   pose proof (dlog_len _ _ _ _ _ _ H) as L1. pose proof (a_len _ _ _ _ _ _ H) as L2.
   pose proof (a_max _ _ _ _ _ _ H) as L3. pose proof (s_cnt _ _ _ _ _ _ H) as L5.
   assert (L4 : length (dlog x) = length (cons x ++ queue x)).
   { rewrite <- (c_log _ _ _ _ _ _ H), map_length. reflexivity. }
-  split; [lia|]. split; [lia|]. intros n0 Hn0.
-  destruct (nth_error (starts x) n0) as [[k s]|] eqn:K; [|apply nth_error_None in K; lia].
-  assert (Hin : In k (map att (dlog x))).
-  { assert (Hincl : incl (map fst (starts x)) (map att (dlog x))).
-    { apply NoDup_length_incl; [apply (c_nd _ _ _ _ _ _ H)|rewrite !map_length; lia|].
-      intros j Hj. apply (att_owner c i now n 0 x j H Hj). }
-    apply Hincl. apply in_map_iff. exists (k, s). split; [reflexivity|apply (nth_error_In _ _ K)]. }
-  apply in_map_iff in Hin. destruct Hin as [[m tk] [E Hin]]. unfold att in E. cbn in E.
-  destruct (c_ent _ _ _ _ _ _ H m tk Hin) as (n1 & s1 & E1 & E2 & E3 & E4).
-  rewrite E in E1.
-  pose proof (owner_inj (starts x) (s_nd _ _ _ _ _ _ H) n1 n0 k s1 s E1 K) as En. subst n1.
-  assert (Hm : is_err m).
-  { rewrite Forall_forall in Herr. apply Herr. rewrite <- (c_log _ _ _ _ _ _ H).
+  assert (Hincl : incl (map fst (starts x) ++ rfl x) (map att (dlog x))).
+  { apply NoDup_length_incl; [apply (c_nd _ _ _ _ _ _ H)|rewrite app_length, !map_length; lia|].
+    intros j Hj. apply in_or_app. apply (att_owner c i now n 0 x j H Hj). }
+  assert (Hm : forall m tk, In (m, tk) (dlog x) -> is_err m).
+  { intros m tk Hin. rewrite Forall_forall in Herr. apply Herr. rewrite <- (c_log _ _ _ _ _ _ H).
     apply in_map_iff. exists (m, tk). split; [reflexivity|exact Hin]. }
-  unfold is_err in Hm. rewrite Hm in E2. cbn in E2.
-  exists k, tk. split; [|split; [exact E2|split; [lia|]]].
-  - rewrite (item_eta m) in Hin. rewrite E, Hm, E3 in Hin. exact Hin.
-  - intros ->. apply (s_hd _ _ _ _ _ _ H k s K).
+  split; [lia|]. split; [lia|]. split.
+  - intros n0 Hn0.
+    destruct (nth_error (starts x) n0) as [[k s]|] eqn:K; [|apply nth_error_None in K; lia].
+    assert (Hin : In k (map att (dlog x))).
+    { apply Hincl. apply in_or_app. left. apply in_map_iff. exists (k, s). split; [reflexivity|apply (nth_error_In _ _ K)]. }
+    apply in_map_iff in Hin. destruct Hin as [[m tk] [E Hin]]. unfold att in E. cbn in E.
+    destruct (log_of_start c i now n 0 x n0 k s m tk H K Hin E) as (E2 & E3 & E4).
+    pose proof (Hm m tk Hin) as Hme. unfold is_err in Hme. rewrite Hme in E2. cbn in E2.
+    exists k, tk. split; [|split; [exact E2|split; [exact E4|]]].
+    + rewrite (item_eta m) in Hin. rewrite E, Hme, E3 in Hin. exact Hin.
+    + intros ->. apply (s_hd _ _ _ _ _ _ H k s K).
+  - intros k Hk.
+    assert (Hin : In k (map att (dlog x))) by (apply Hincl; apply in_or_app; right; exact Hk).
+    apply in_map_iff in Hin. destruct Hin as [[m tk] [E Hin]]. unfold att in E. cbn in E.
+    destruct (log_of_rfail c i now n 0 x k m tk H Hk Hin E) as (E1 & E2). subst m.
+    exists tk. split; [exact Hin|exact E2].
 Qed.
 
 (* a message of the primary carries the value of inner call 0 *)
@@ -925,11 +1197,13 @@ Lemma primary_val c i now n h x m :
   Cbase c i now n h x -> In m (cons x ++ queue x) -> it_att m = 0%nat -> it_val m = val i 0.
 Proof.
   intros H Hin E. destruct (in_log _ _ _ _ _ _ _ H Hin) as [tau Hin'].
-  destruct (c_ent _ _ _ _ _ _ H _ _ Hin') as (n0 & s & E1 & _ & E3 & _). rewrite E in E1.
-  destruct (nth_error (starts x) 0) as [[k0 s0]|] eqn:K0.
-  - destruct (s_hd _ _ _ _ _ _ H k0 s0 K0) as [Ek0 _]. subst k0.
-    pose proof (owner_inj (starts x) (s_nd _ _ _ _ _ _ H) n0 0 0%nat s s0 E1 K0). subst n0. exact E3.
-  - apply nth_error_None in K0. assert (n0 < length (starts x))%nat by (apply nth_error_Some; congruence). lia.
+  destruct (c_ent _ _ _ _ _ _ H _ _ Hin') as [(n0 & s & E1 & _ & E3 & _)|(R1 & _)].
+  - rewrite E in E1.
+    destruct (nth_error (starts x) 0) as [[k0 s0]|] eqn:K0.
+    + destruct (s_hd _ _ _ _ _ _ H k0 s0 K0) as [Ek0 _]. subst k0.
+      pose proof (owner_inj (starts x) (s_nd _ _ _ _ _ _ H) n0 0 0%nat s s0 E1 K0). subst n0. exact E3.
+    + apply nth_error_None in K0. assert (n0 < length (starts x))%nat by (apply nth_error_Some; congruence). lia.
+  - exfalso. rewrite E in R1. destruct (r_in _ _ _ _ _ _ H _ R1) as (Q & _). lia.
 Qed.
 
 Lemma lat_failed c i now n x pre m rest :
@@ -951,10 +1225,11 @@ Proof.
   assert (Herr : Forall is_err (cons x ++ queue x)).
   { rewrite Hq. apply Forall_app. split; [apply (c_err _ _ _ _ _ _ H Hp)|].
     apply Forall_app. split; [exact Hpre|]. constructor; [exact Hm|constructor]. }
-  destruct (all_errors c i now n x H Herr) as (Hl & Hs & Hall).
+  destruct (all_errors c i now n x H Herr) as (Hl & Hs & Hall & Hrf).
   { rewrite Hq, !app_length. cbn [length]. lia. }
   destruct (a_lat _ _ _ _ _ _ H P) as [Hlm Hm1].
-  split; [exact Hl|]. split; [exact Hs|]. split; [|split].
+  pose proof (s_pr _ _ _ _ _ _ H ltac:(lia)) as Hs1.
+  split; [exact Hl|]. split; [exact Hs|]. split; [|split; [exact Hrf|split]].
   - intros n0 Hn0. destruct (Hall n0 Hn0) as (k & tk & T1 & T2 & T3 & _). exists OErr.
     split; [exact T2|]. split; [discriminate|]. intros _. exists k, tk. split; [exact T1|exact T3].
   - intros _ _. split.
@@ -973,6 +1248,21 @@ Proof.
   - intros [E|E]; [congruence|lia].
 Qed.
 
+(* the error counter stays below max_hedged_attempts as long as the timer loop goes on *)
+Lemma consume_lat_cont mx q : forall cs e pe,
+  match consume_lat mx q cs e pe with
+  | CCont _ e' _ => (e < mx)%nat -> (e' < mx)%nat
+  | CDone _ _ _ _ _ _ => True
+  end.
+Proof.
+  induction q as [|[[k ok] v] q IH]; intros cs e pe; cbn [consume_lat]; [auto|].
+  destruct ok; [exact I|]. destruct (mx <=? S e)%nat eqn:G; [exact I|].
+  apply Nat.leb_gt in G.
+  specialize (IH (cs ++ [(k, false, v)]) (S e) (if Nat.eqb k 0 then Some v else pe)).
+  destruct (consume_lat mx q (cs ++ [(k, false, v)]) (S e) (if Nat.eqb k 0 then Some v else pe)); [exact I|].
+  intros _. apply IH. exact G.
+Qed.
+
 Lemma poll_lat_ok c i now n x :
   Cbase c i now n 0 x -> Cdlv x -> ph x = Latency ->
   let x1 := fst (fst (poll_latency c now x)) in
@@ -982,6 +1272,7 @@ Proof.
   assert (Hp : pending x) by (left; exact P).
   pose proof (a_len _ _ _ _ _ _ H) as Hlen.
   pose proof (consume_lat_spec (maxa c) (queue x) (cons x) (errs x) (perr x)) as S.
+  pose proof (consume_lat_cont (maxa c) (queue x) (cons x) (errs x) (perr x)) as Hcont.
   destruct (consume_lat (maxa c) (queue x) (cons x) (errs x) (perr x)) as [r v cs rest e pe|cs e pe].
   - cbn [fst]. destruct S as (pre & m & Hq & Hcs & Hpre & Hr).
     replace (sp (resolve now x r v cs rest e pe) - length (launch (resolve now x r v cs rest e pe)))%nat
@@ -1007,7 +1298,7 @@ Proof.
     assert (Hallerr : Forall is_err (cons x ++ queue x)).
     { apply Forall_app. split; [apply (c_err _ _ _ _ _ _ H Hp)|exact Herr]. }
     split; [|split; [|split]].
-    + constructor; cbn [ph t0 sp errs perr dline queue launch waiting rdy starts gate woken dlog cons res];
+    + constructor; cbn [ph t0 sp errs perr dline queue launch waiting rdy starts gate woken dlog cons res rerr rfl];
         try (unfold es at 1); cbn [launch]; rewrite ?Hes.
       * lia.
       * exact F2.
@@ -1062,6 +1353,12 @@ Proof.
         assert (Hx : is_err (0%nat, true, v0)).
         { apply Hallerr. apply in_map_iff. exists ((0%nat, true, v0), tau). split; [reflexivity|exact Hin]. }
         discriminate Hx.
+      * apply (w_ne _ _ _ _ _ _ H).
+      * apply (r_in _ _ _ _ _ _ H).
+      * apply (r_nd _ _ _ _ _ _ H).
+      * intros _. apply (r_dlv _ _ _ _ _ _ H Hp).
+      * apply (g_inc _ _ _ _ _ _ H).
+      * intros _. exact (Hcont (c_lt _ _ _ _ _ _ H P)).
     + intros _ n0 k s o Hk Hg Ho. cbn [starts gate dlog] in *. apply (Hd Hp n0 k s o); assumption.
     + intros E. discriminate.
     + intros _ S1 D. cbn [sp dline] in S1, D. exfalso.
@@ -1082,20 +1379,18 @@ Proof.
   pose proof (s_cnt _ _ _ _ _ _ H) as Hcnt. rewrite C2 in Hcnt. cbn in Hcnt.
   assert (Hall : Forall is_err (cons x ++ queue x)).
   { apply Forall_app. split; [apply (c_err _ _ _ _ _ _ H Hp)|exact Herr]. }
+  assert (Hm : forall m tk, In (m, tk) (dlog x) -> is_err m).
+  { intros m tk Hin. rewrite Forall_forall in Hall. apply Hall. rewrite <- (c_log _ _ _ _ _ _ H).
+    apply in_map_iff. exists (m, tk). split; [reflexivity|exact Hin]. }
   assert (Hent : forall n0 k s o, nth_error (starts x) n0 = Some (k, s) -> gate x n0 = Some o -> o <> OPanic ->
              o = OErr /\ exists tk, In ((k, false, val i n0), tk) (dlog x) /\ tk <= now).
   { intros n0 k s o K G Ho. pose proof (Hd Hp n0 k s o K G Ho) as Hin.
     apply in_map_iff in Hin. destruct Hin as [[m tk] [E Hin]]. unfold att in E. cbn in E.
-    destruct (c_ent _ _ _ _ _ _ H m tk Hin) as (n1 & s1 & E1 & E2 & E3 & E4).
-    rewrite E in E1.
-    pose proof (owner_inj (starts x) (s_nd _ _ _ _ _ _ H) n1 n0 k s1 s E1 K) as En. subst n1.
-    assert (Hm : is_err m).
-    { rewrite Forall_forall in Hall. apply Hall. rewrite <- (c_log _ _ _ _ _ _ H).
-      apply in_map_iff. exists (m, tk). split; [reflexivity|exact Hin]. }
-    unfold is_err in Hm. rewrite Hm in E2. cbn in E2.
-    split; [congruence|]. exists tk. split; [|lia].
-    rewrite (item_eta m) in Hin. rewrite E, Hm, E3 in Hin. exact Hin. }
-  split; [lia|]. split; [lia|]. split; [|split].
+    destruct (log_of_start c i now n 0 x n0 k s m tk H K Hin E) as (E2 & E3 & E4).
+    pose proof (Hm m tk Hin) as Hme. unfold is_err in Hme. rewrite Hme in E2. cbn in E2.
+    split; [congruence|]. exists tk. split; [|exact E4].
+    rewrite (item_eta m) in Hin. rewrite E, Hme, E3 in Hin. exact Hin. }
+  split; [lia|]. split; [lia|]. split; [|split; [|split]].
   - intros n0 Hn0.
     destruct (nth_error (starts x) n0) as [[k s]|] eqn:K; [|apply nth_error_None in K; lia].
     destruct (gate x n0) as [o|] eqn:G; [|exfalso; apply (C3 n0); [lia|exact G]].
@@ -1104,12 +1399,16 @@ Proof.
     + destruct (Hent n0 k s OOk K G ltac:(discriminate)) as [E _]. discriminate.
     + split; [discriminate|]. intros _. exists k. apply (Hent n0 k s OErr K G). discriminate.
     + split; [discriminate|]. intros E. discriminate.
+  - intros k Hk. pose proof (r_dlv _ _ _ _ _ _ H Hp k Hk) as Hin.
+    apply in_map_iff in Hin. destruct Hin as [[m tk] [E Hin]]. unfold att in E. cbn in E.
+    destruct (log_of_rfail c i now n 0 x k m tk H Hk Hin E) as (E1 & E2). subst m.
+    exists tk. split; [exact Hin|exact E2].
   - intros L M. destruct Hmode as [E|E]; [congruence|lia].
   - intros _. pose proof (c_log _ _ _ _ _ _ H) as Hlog.
     destruct (cons x ++ queue x) as [|m l] eqn:Ecq; [discriminate|]. cbn in Hhd. injection Hhd as Ev.
     destruct (dlog x) as [|[m' tk] rest] eqn:Ed; [discriminate|]. cbn in Hlog. injection Hlog as Em El.
-    subst m'. inversion Hall as [|? ? Hm _]; subst. unfold is_err in Hm.
-    exists (it_att m), tk, rest. rewrite (item_eta m) at 1. rewrite Hm. reflexivity.
+    subst m'. inversion Hall as [|? ? Hme _]; subst. unfold is_err in Hme.
+    exists (it_att m), tk, rest. rewrite (item_eta m) at 1. rewrite Hme. reflexivity.
 Qed.
 
 Lemma poll_drain_ok c i now n x :
@@ -1138,7 +1437,7 @@ Proof.
     + cbn [fst sp launch]. replace (sp x - length (launch x))%nat with n by lia.
       split; [|split; [|split]].
       * open_base H.
-        constructor; cbn [ph t0 sp errs perr dline queue launch waiting rdy starts gate woken dlog cons res];
+        constructor; cbn [ph t0 sp errs perr dline queue launch waiting rdy starts gate woken dlog cons res rerr rfl];
           unfold es in *; cbn [launch]; try assumption; try (intros; discriminate).
         -- intros _. apply (a_pos _ _ _ _ _ _ H). exact Hp.
         -- intros _. apply (a_drain _ _ _ _ _ _ H). exact P.
@@ -1147,6 +1446,7 @@ Proof.
         -- intros _. exact Hpe.
         -- intros _ Q. congruence.
         -- intros r0 v0 tau E. destruct (e_res _ _ _ _ _ _ H r0 v0 tau E) as [E1 _]. congruence.
+        -- intros _. apply (r_dlv _ _ _ _ _ _ H Hp).
       * intros _ n0 k s o Hk Hg Ho. cbn [starts gate dlog] in *. apply (Hd Hp n0 k s o); assumption.
       * intros _ Cl'. exfalso. change (closed x = true) in Cl'. congruence.
       * intros E. discriminate.
@@ -1163,8 +1463,9 @@ Proof.
   pose proof (s_cnt _ _ _ _ _ _ H) as E6. rewrite E5 in E6. cbn in E6.
   assert (E7 : starts x = []) by (apply length_zero_iff_nil; lia).
   assert (E8 : waiting x = []) by (apply length_zero_iff_nil; lia).
+  assert (E9 : rfl x = []) by (apply length_zero_iff_nil; lia).
   assert (Hres : forall r0 v0 tau, res x <> Some (r0, v0, tau)).
-  { intros r0 v0 tau E. destruct (e_res _ _ _ _ _ _ H _ _ _ E) as [E9 _]. congruence. }
+  { intros r0 v0 tau E. destruct (e_res _ _ _ _ _ _ H _ _ _ E) as [E10 _]. congruence. }
   assert (Hrep : forall k, Forall (eq now) (repeat now k)).
   { intros k. apply Forall_forall. intros t Ht. apply repeat_spec in Ht. congruence. }
   assert (Hcd : forall y, starts y = [] -> Cdlv y).
@@ -1173,11 +1474,12 @@ Proof.
   { intros l Hl k Hk. lia. }
   unfold begin. destruct (1 <? maxa c)%nat eqn:M; [destruct (latency_mode c) eqn:L|].
   - apply Nat.ltb_lt in M. split; [|split; [apply Hcd; apply E7|left; reflexivity]].
-    constructor; cbn [ph t0 sp errs perr dline queue launch waiting rdy starts gate woken dlog cons res];
-      unfold es; cbn [launch]; rewrite ?E2, ?E3, ?E4, ?E5, ?E7, ?E8; cbn [repeat app length map nth];
+    constructor; cbn [ph t0 sp errs perr dline queue launch waiting rdy starts gate woken dlog cons res rerr rfl];
+      unfold es; cbn [launch]; rewrite ?E2, ?E3, ?E4, ?E5, ?E7, ?E8, ?E9; cbn [repeat app length map nth];
       try (intros; discriminate); try lia; try reflexivity; try (constructor; fail);
       try (intros ? []; fail); try (intros ? ? []; fail); try (intros ? ? ? []; fail);
       try (exact (g_off _ _ _ _ _ _ H)); try (intros ? [|?] ? ? E; discriminate E);
+      try (intros ? [|?] ? ? ? ? ? ? E; discriminate E);
       try (intros ? ? ? E; exfalso; exact (Hres _ _ _ E));
       try (intros ? ? E; exfalso; exact (Hres _ _ _ E));
       try (intros _ Q; congruence);
@@ -1186,11 +1488,12 @@ Proof.
             | solve [intros _; apply Hsp1; cbn; lia]
             | solve [intros _; split; [reflexivity|split; [intros; discriminate|intros []]]] ].
   - apply Nat.ltb_lt in M. split; [|split; [apply Hcd; apply E7|right; reflexivity]].
-    constructor; cbn [ph t0 sp errs perr dline queue launch waiting rdy starts gate woken dlog cons res];
-      unfold es; cbn [launch]; rewrite ?E2, ?E3, ?E4, ?E5, ?E7, ?E8; cbn [app length map];
+    constructor; cbn [ph t0 sp errs perr dline queue launch waiting rdy starts gate woken dlog cons res rerr rfl];
+      unfold es; cbn [launch]; rewrite ?E2, ?E3, ?E4, ?E5, ?E7, ?E8, ?E9; cbn [app length map];
       try (intros; discriminate); try lia; try reflexivity; try (constructor; fail);
       try (intros ? []; fail); try (intros ? ? []; fail); try (intros ? ? ? []; fail);
       try (exact (g_off _ _ _ _ _ _ H)); try (intros ? [|?] ? ? E; discriminate E);
+      try (intros ? [|?] ? ? ? ? ? ? E; discriminate E);
       try (intros ? ? ? E; exfalso; exact (Hres _ _ _ E));
       try (intros ? ? E; exfalso; exact (Hres _ _ _ E));
       try (intros _ Q; congruence);
@@ -1201,11 +1504,12 @@ Proof.
             | solve [intros; reflexivity] ].
   - apply Nat.ltb_ge in M. assert (M1 : maxa c = 1%nat) by lia.
     split; [|split; [apply Hcd; apply E7|right; reflexivity]].
-    constructor; cbn [ph t0 sp errs perr dline queue launch waiting rdy starts gate woken dlog cons res];
-      unfold es; cbn [launch]; rewrite ?E2, ?E3, ?E4, ?E5, ?E7, ?E8; cbn [repeat app length map nth];
+    constructor; cbn [ph t0 sp errs perr dline queue launch waiting rdy starts gate woken dlog cons res rerr rfl];
+      unfold es; cbn [launch]; rewrite ?E2, ?E3, ?E4, ?E5, ?E7, ?E8, ?E9; cbn [repeat app length map nth];
       try (intros; discriminate); try lia; try reflexivity; try (constructor; fail);
       try (intros ? []; fail); try (intros ? ? []; fail); try (intros ? ? ? []; fail);
       try (exact (g_off _ _ _ _ _ _ H)); try (intros ? [|?] ? ? E; discriminate E);
+      try (intros ? [|?] ? ? ? ? ? ? E; discriminate E);
       try (intros ? ? ? E; exfalso; exact (Hres _ _ _ E));
       try (intros ? ? E; exfalso; exact (Hres _ _ _ E));
       try (intros _ Q; congruence);
@@ -1257,7 +1561,8 @@ Proof.
   intros j. cbn. split; [|split; [|split]].
   - constructor; cbn; try (intros; discriminate); try lia; try (constructor; fail);
       try (intros ? []; fail); try (intros ? ? []; fail); try (intros ? ? ? []; fail);
-      try (intros ? [|?] ? ? E; discriminate E).
+      try (intros ? [|?] ? ? E; discriminate E);
+      try (intros ? [|?] ? ? ? ? ? ? E; discriminate E).
     + intros _. repeat split.
     + intros [E|E]; discriminate.
     + intros _ k Hk. cbn in Hk. lia.
@@ -1270,7 +1575,7 @@ Qed.
 
 Lemma inv_step c s e : (1 <= maxa c)%nat -> Inv c s -> Inv c (step_st c s e).
 Proof.
-  intros Hm H j. unfold step_st, step. destruct e as [i|i|d|i k o|i k].
+  intros Hm H j. unfold step_st, step. destruct e as [i|i|d|i k o|i k|i k].
   - pose proof (poll_call_ok c i (now s) (calls s i) Hm (H i)) as B.
     destruct (poll_call c i (now s) (calls s i)) as [[x r0] v0]. cbn [fst now calls] in *.
     destruct (Nat.eq_dec j i) as [->|Hne]; [rewrite upd_same; exact B|rewrite upd_other by exact Hne; apply H].
@@ -1281,6 +1586,8 @@ Proof.
     destruct (Nat.eq_dec j i) as [->|Hne]; [rewrite upd_same; apply complete_ok; apply H|rewrite upd_other by exact Hne; apply H].
   - cbn [fst now calls].
     destruct (Nat.eq_dec j i) as [->|Hne]; [rewrite upd_same; apply ready_ok; apply H|rewrite upd_other by exact Hne; apply H].
+  - cbn [fst now calls].
+    destruct (Nat.eq_dec j i) as [->|Hne]; [rewrite upd_same; apply readyerr_ok; apply H|rewrite upd_other by exact Hne; apply H].
 Qed.
 
 Lemma reach c evs : (1 <= maxa c)%nat -> Forall (Inv c) (states (step_st c) (init c) evs).
@@ -1340,25 +1647,34 @@ Proof.
   - intros P Q. split; [apply (S4 P Q)|]. intros D. apply (Hb P); [lia|exact D].
 Qed.
 
-(* which tasks wait for readiness; without back-pressure nobody waits and the inner calls
-   are made in attempt order at the launch instants *)
+(* which tasks wait for readiness, which have failed readiness; without back-pressure nobody
+   waits and every inner call is made at the launch instant of its attempt; if moreover no clone
+   failed readiness the inner calls are made in attempt order *)
 Lemma readiness c evs i : (1 <= maxa c)%nat ->
   Forall (fun s => let x := calls s i in
-     (length (starts x) + length (waiting x) = length (launch x))%nat /\
-     NoDup (map fst (starts x)) /\ NoDup (waiting x) /\
+     (length (starts x) + length (waiting x) + length (rfl x) = length (launch x))%nat /\
+     NoDup (map fst (starts x)) /\ NoDup (waiting x) /\ NoDup (rfl x) /\
      (forall k, In k (waiting x) ->
-        (1 <= k < length (launch x))%nat /\ rdy x k = false /\ ~ In k (map fst (starts x))) /\
-     (gated c = false -> waiting x = [] /\ length (starts x) = length (launch x) /\
-        forall n k s0, nth_error (starts x) n = Some (k, s0) -> k = n /\ s0 = nth n (launch x) 0))
+        (1 <= k < length (launch x))%nat /\ rdy x k = false /\ rerr x k = false /\
+        ~ In k (map fst (starts x)) /\ ~ In k (rfl x)) /\
+     (forall k, In k (rfl x) -> (1 <= k < length (launch x))%nat /\ ~ In k (map fst (starts x))) /\
+     (gated c = false -> waiting x = [] /\
+        (length (starts x) + length (rfl x) = length (launch x))%nat /\
+        forall n k s0, nth_error (starts x) n = Some (k, s0) ->
+          s0 = nth k (launch x) 0 /\ (rfl x = [] -> k = n)))
   (states (step_st c) (init c) evs).
 Proof.
   intros Hm. eapply Forall_impl; [|apply reach; exact Hm]. intros s H. cbv beta zeta.
   destruct (H i) as (B & _).
   pose proof (s_cnt _ _ _ _ _ _ B) as L1.
-  split; [lia|]. split; [apply (s_nd _ _ _ _ _ _ B)|]. split; [apply (w_nd _ _ _ _ _ _ B)|]. split.
+  split; [lia|]. split; [apply (s_nd _ _ _ _ _ _ B)|]. split; [apply (w_nd _ _ _ _ _ _ B)|].
+  split; [apply (r_nd _ _ _ _ _ _ B)|]. split; [|split].
   - intros k Hk. destruct (w_in _ _ _ _ _ _ B k Hk) as [E1 E2]. split; [exact E1|]. split; [exact E2|].
-    intros Hin. apply in_map_iff in Hin. destruct Hin as [[k' s0] [E Hin]]. cbn in E. subst k'.
-    destruct (s_in _ _ _ _ _ _ B k s0 Hin) as (_ & E & _). contradiction.
+    split; [apply (w_ne _ _ _ _ _ _ B k Hk)|]. split.
+    + intros Hin. apply in_map_iff in Hin. destruct Hin as [[k' s0] [E Hin]]. cbn in E. subst k'.
+      destruct (s_in _ _ _ _ _ _ B k s0 Hin) as (_ & E & _). contradiction.
+    + intros Hin. destruct (r_in _ _ _ _ _ _ B k Hin) as (_ & E & _). contradiction.
+  - intros k Hk. destruct (r_in _ _ _ _ _ _ B k Hk) as (E1 & _ & E3). split; assumption.
   - intros G.
     assert (Ew : waiting (calls s i) = []).
     { destruct (waiting (calls s i)) as [|k0 l] eqn:Ew; [reflexivity|exfalso].
@@ -1367,10 +1683,45 @@ Proof.
     split; [exact Ew|]. rewrite Ew in L1. cbn in L1. split; [lia|]. apply (g_seq _ _ _ _ _ _ B G).
 Qed.
 
+Lemma spaced_mono c l : spaced c l ->
+  forall d a, (a + d < length l)%nat -> nth a l 0 <= nth (a + d) l 0.
+Proof.
+  intros Hs. induction d as [|d IH]; intros a Ha.
+  - rewrite Nat.add_0_r. lia.
+  - specialize (IH a ltac:(lia)). specialize (Hs (a + d)%nat ltac:(lia)).
+    pose proof (delay_nonneg c (S (a + d))). replace (a + S d)%nat with (S (a + d)) by lia. lia.
+Qed.
+
+(* clause 2 read directly on the inner calls: without back-pressure, consecutive inner calls are
+   made by attempts of increasing number, the later one no earlier than its configured delay
+   after the earlier one (if no clone failed readiness they are attempts n and n+1) *)
+Lemma start_spacing c evs i : (1 <= maxa c)%nat -> gated c = false -> latency_mode c = true ->
+  Forall (fun s => let x := calls s i in
+     forall n k1 s1 k2 s2, nth_error (starts x) n = Some (k1, s1) ->
+       nth_error (starts x) (S n) = Some (k2, s2) ->
+       (k1 < k2)%nat /\ s1 + delay c k2 <= s2 /\ (rfl x = [] -> k1 = n /\ k2 = S n))
+  (states (step_st c) (init c) evs).
+Proof.
+  intros Hm G L. eapply Forall_impl; [|apply reach; exact Hm]. intros s H. cbv beta zeta.
+  destruct (H i) as (B & _). intros n k1 s1 k2 s2 E1 E2.
+  destruct (g_seq _ _ _ _ _ _ B G n k1 s1 E1) as [A1 A2].
+  destruct (g_seq _ _ _ _ _ _ B G (S n) k2 s2 E2) as [A3 A4].
+  pose proof (g_inc _ _ _ _ _ _ B G n (S n) k1 k2 s1 s2 ltac:(lia) E1 E2) as Hlt.
+  destruct (s_in _ _ _ _ _ _ B k2 s2 (nth_error_In _ _ E2)) as (K2 & _).
+  pose proof (b_sp _ _ _ _ _ _ B L) as Sp. unfold es in Sp. cbn [repeat] in Sp. rewrite app_nil_r in Sp.
+  split; [exact Hlt|]. split.
+  - subst s1 s2. destruct k2 as [|k2']; [lia|].
+    pose proof (Sp k2' ltac:(lia)) as S1.
+    pose proof (spaced_mono c _ Sp (k2' - k1)%nat k1 ltac:(lia)) as S2.
+    replace (k1 + (k2' - k1))%nat with k2' in S2 by lia. lia.
+  - intros Er. split; [apply A2; exact Er|apply A4; exact Er].
+Qed.
+
 Lemma run_tasks_starts_mono i now n : forall x e, In e (starts x) -> In e (starts (run_tasks i now n x)).
 Proof.
   induction n as [|n IH]; intros x e He; cbn [run_tasks]; [exact He|].
   apply IH. destruct (launch_task_frame i now x) as (_ & _ & _ & E). rewrite E.
+  destruct (negb (Nat.eqb (length (launch x)) 0) && rerr x (length (launch x))); [exact He|].
   destruct (Nat.eqb (length (launch x)) 0 || rdy x (length (launch x))); [|exact He].
   apply in_or_app. left. exact He.
 Qed.
@@ -1382,7 +1733,8 @@ Lemma spacing_prompt c evs i : (1 <= maxa c)%nat ->
   r (snd (step c s (Poll i))) = 0 ->
   let x' := calls (step_st c s (Poll i)) i in
   (length (launch x) < length (launch x'))%nat /\ nth (length (launch x)) (launch x') 0 = now s /\
-  (rdy x (length (launch x)) = true -> In (length (launch x), now s) (starts x')).
+  (rdy x (length (launch x)) = true -> rerr x (length (launch x)) = false ->
+   In (length (launch x), now s) (starts x')).
 Proof.
   intros Hm s x P Q D. subst x.
   destruct (reach_last c evs Hm i) as (B & _). fold s in B.
@@ -1403,11 +1755,11 @@ Proof.
     split; [|split].
     + rewrite run_tasks_launch. cbn [launch]. rewrite app_length, repeat_length. lia.
     + rewrite run_tasks_launch. cbn [launch]. apply nth_app_repeat; lia.
-    + intros R. destruct (s' - length (launch (calls s i)))%nat as [|d] eqn:Ed; [lia|].
+    + intros R RE. destruct (s' - length (launch (calls s i)))%nat as [|d] eqn:Ed; [lia|].
       cbn [run_tasks]. apply run_tasks_starts_mono.
       match goal with |- In _ (starts (launch_task i (now s) ?y)) =>
         destruct (launch_task_frame i (now s) y) as (_ & _ & _ & E) end.
-      rewrite E. cbn [launch rdy starts]. rewrite R, orb_true_r.
+      rewrite E. cbn [launch rdy rerr starts]. rewrite R, RE, orb_true_r, andb_false_r.
       apply in_or_app. right. left. reflexivity.
 Qed.
 
@@ -1513,11 +1865,13 @@ Qed.
 Lemma all_failed_only_if c evs i : (1 <= maxa c)%nat ->
   Forall (fun s => let x := calls s i in
      forall e tau, res x = Some (3, e, tau) ->
-       length (launch x) = maxa c /\ length (starts x) = maxa c /\
-       (forall n, (n < maxa c)%nat -> exists o, gate x n = Some o /\ o <> OOk /\
+       length (launch x) = maxa c /\ (length (starts x) + length (rfl x) = maxa c)%nat /\ waiting x = [] /\
+       (forall k, (k < maxa c)%nat -> In k (map fst (starts x)) \/ In k (rfl x)) /\
+       (forall n, (n < length (starts x))%nat -> exists o, gate x n = Some o /\ o <> OOk /\
            (o = OErr -> exists k tk, In ((k, false, val i n), tk) (dlog x) /\ tk <= tau)) /\
+       (forall k, In k (rfl x) -> exists tk, In ((k, false, rval i k), tk) (dlog x) /\ tk <= tau) /\
        (latency_mode c = true -> (1 < maxa c)%nat ->
-           e = val i 0 /\ forall n, (n < maxa c)%nat -> gate x n = Some OErr) /\
+           e = val i 0 /\ forall n, (n < length (starts x))%nat -> gate x n = Some OErr) /\
        (latency_mode c = false \/ maxa c = 1%nat ->
            exists k tk rest, dlog x = ((k, false, e), tk) :: rest) /\
        (maxa c = 1%nat -> e = val i 0))
@@ -1525,12 +1879,23 @@ Lemma all_failed_only_if c evs i : (1 <= maxa c)%nat ->
 Proof.
   intros Hm. eapply Forall_impl; [|apply reach; exact Hm]. intros s H. cbv beta zeta.
   destruct (H i) as (B & _). intros e tau E.
-  destruct (e_fail _ _ _ _ _ _ B e tau E) as (F0 & F1 & F2 & F3 & F4).
-  split; [exact F0|]. split; [exact F1|]. split; [exact F2|]. split; [exact F3|]. split; [exact F4|].
-  intros M. destruct (F4 (or_intror M)) as (k & tk & rest & Ed).
-  destruct (c_ent _ _ _ _ _ _ B (k, false, e) tk) as (n0 & s0 & E1 & _ & E3 & _); [rewrite Ed; left; reflexivity|].
-  cbn in E3. assert (n0 < length (starts (calls s i)))%nat by (apply nth_error_Some; congruence).
-  replace n0 with 0%nat in E3 by lia. exact E3.
+  destruct (e_fail _ _ _ _ _ _ B e tau E) as (F0 & F1 & F2 & FR & F3 & F4).
+  pose proof (s_cnt _ _ _ _ _ _ B) as L1.
+  split; [exact F0|]. split; [exact F1|]. split; [apply length_zero_iff_nil; lia|].
+  split; [|split; [exact F2|split; [exact FR|split; [exact F3|split; [exact F4|]]]]].
+  - intros k Hk. apply in_app_or.
+    apply (nodup_below_full (map fst (starts (calls s i)) ++ rfl (calls s i)) (maxa c)); [| |rewrite app_length, map_length; lia|exact Hk].
+    + apply nodup_app_intro; [apply (s_nd _ _ _ _ _ _ B)|apply (r_nd _ _ _ _ _ _ B)|].
+      intros j J1 J2. destruct (r_in _ _ _ _ _ _ B j J2) as (_ & _ & Q). exact (Q J1).
+    + intros j Hj. apply in_app_or in Hj. destruct Hj as [Hj|Hj].
+      * apply in_map_iff in Hj. destruct Hj as [[j' s0] [Ej Hj]]. cbn in Ej. subst j'.
+        destruct (s_in _ _ _ _ _ _ B j s0 Hj) as (Q & _). lia.
+      * destruct (r_in _ _ _ _ _ _ B j Hj) as (Q & _). lia.
+  - intros M. destruct (F4 (or_intror M)) as (k & tk & rest & Ed).
+    destruct (c_ent _ _ _ _ _ _ B (k, false, e) tk) as [(n0 & s0 & E1 & _ & E3 & _)|(R1 & _)]; [rewrite Ed; left; reflexivity| |].
+    + cbn in E3. assert (n0 < length (starts (calls s i)))%nat by (apply nth_error_Some; congruence).
+      replace n0 with 0%nat in E3 by lia. exact E3.
+    + exfalso. destruct (r_in _ _ _ _ _ _ B _ R1) as (Q & _). lia.
 Qed.
 
 Lemma no_result_lost c evs i : (1 <= maxa c)%nat ->
@@ -1538,10 +1903,13 @@ Lemma no_result_lost c evs i : (1 <= maxa c)%nat ->
      map fst (dlog x) = cons x ++ queue x /\
      NoDup (map att (dlog x)) /\
      (forall m tau, In (m, tau) (dlog x) ->
-        exists n s0, nth_error (starts x) n = Some (it_att m, s0) /\
-                     gate x n = Some (out_of (it_ok m)) /\ it_val m = val i n /\ s0 <= tau <= now s) /\
+        (exists n s0, nth_error (starts x) n = Some (it_att m, s0) /\
+                      gate x n = Some (out_of (it_ok m)) /\ it_val m = val i n /\ s0 <= tau <= now s) \/
+        (In (it_att m) (rfl x) /\ it_ok m = false /\ it_val m = rval i (it_att m) /\
+         nth (it_att m) (launch x) 0 <= tau <= now s)) /\
      (pending x -> forall n k s0 o, nth_error (starts x) n = Some (k, s0) -> gate x n = Some o ->
         o <> OPanic -> In k (map att (dlog x))) /\
+     (pending x -> forall k, In k (rfl x) -> In k (map att (dlog x))) /\
      (pending x -> Forall (fun m => it_ok m = false) (cons x)) /\
      (pending x -> queue x <> [] -> woken x = true) /\
      (ph x = Drain -> closed x = true -> woken x = true))
@@ -1550,9 +1918,80 @@ Proof.
   intros Hm. eapply Forall_impl; [|apply reach; exact Hm]. intros s H. cbv beta zeta.
   destruct (H i) as (B & Hd & Hc & _).
   split; [apply (c_log _ _ _ _ _ _ B)|]. split; [apply (c_nd _ _ _ _ _ _ B)|].
-  split; [apply (c_ent _ _ _ _ _ _ B)|]. split; [exact Hd|].
+  split; [apply (c_ent _ _ _ _ _ _ B)|]. split; [exact Hd|]. split; [apply (r_dlv _ _ _ _ _ _ B)|].
   split; [apply (c_err _ _ _ _ _ _ B)|]. split; [apply (d_wk _ _ _ _ _ _ B)|exact Hc].
 Qed.
+
+(* a waiting attempt whose clone's poll_ready starts failing gives up at that instant: no inner
+   call, and (while the call is unresolved) its error is delivered *)
+Lemma readyerr_fails c evs i k : (1 <= maxa c)%nat ->
+  let s := fold_left (step_st c) evs (init c) in
+  In k (waiting (calls s i)) ->
+  let x' := calls (step_st c s (ReadyErr i k)) i in
+  In k (rfl x') /\ starts x' = starts (calls s i) /\ ~ In k (waiting x') /\
+  (pending (calls s i) -> In ((k, false, rval i k), now s) (dlog x')).
+Proof.
+  intros Hm s Hk.
+  destruct (reach_last c evs Hm i) as (B & _). fold s in B.
+  pose proof (w_ne _ _ _ _ _ _ B k Hk) as R.
+  unfold step_st, step. cbn [fst calls]. rewrite upd_same. unfold readyerr_call. rewrite R.
+  apply mem_In in Hk. rewrite Hk. unfold fail_ready.
+  cbn [ph t0 sp errs perr dline queue launch waiting rdy starts gate woken dlog cons res rerr rfl].
+  destruct (ph (calls s i)) eqn:P;
+    cbn [ph t0 sp errs perr dline queue launch waiting rdy starts gate woken dlog cons res rerr rfl];
+    (split; [apply in_or_app; right; left; reflexivity|]); (split; [reflexivity|]);
+    (split; [intros Hin; apply in_remove_id in Hin; destruct Hin as [_ Hin]; congruence|]);
+    intros [Q|Q]; try congruence; apply in_or_app; right; left; reflexivity.
+Qed.
+
+(* the reverse of clause 4 in the timer loop: once max_hedged_attempts messages have been
+   delivered and all of them are errors, the next poll reports AllAttemptsFailed *)
+Lemma all_failed_reported c evs i : (1 <= maxa c)%nat ->
+  let s := fold_left (step_st c) evs (init c) in
+  let x := calls s i in
+  ph x = Latency -> Forall (fun m => it_ok m = false) (map fst (dlog x)) ->
+  (maxa c <= length (dlog x))%nat ->
+  r (snd (step c s (Poll i))) = 3.
+Proof.
+  intros Hm s x P Herr Hlen. subst x.
+  destruct (reach_last c evs Hm i) as (B & _). fold s in B.
+  destruct (c_lat _ _ _ _ _ _ B P) as (Le & _).
+  pose proof (c_lt _ _ _ _ _ _ B P) as Lt.
+  rewrite (c_log _ _ _ _ _ _ B) in Herr. apply Forall_app in Herr. destruct Herr as [_ Hq].
+  assert (L4 : length (dlog (calls s i)) = (length (cons (calls s i)) + length (queue (calls s i)))%nat).
+  { rewrite <- app_length, <- (c_log _ _ _ _ _ _ B), map_length. reflexivity. }
+  unfold step, poll_call, poll_body. rewrite P. unfold poll_latency.
+  pose proof (consume_lat_spec (maxa c) (queue (calls s i)) (cons (calls s i)) (errs (calls s i)) (perr (calls s i))) as S.
+  pose proof (consume_lat_cont (maxa c) (queue (calls s i)) (cons (calls s i)) (errs (calls s i)) (perr (calls s i))) as C.
+  destruct (consume_lat (maxa c) (queue (calls s i)) (cons (calls s i)) (errs (calls s i)) (perr (calls s i)))
+    as [r0 v0 cs rest e pe|cs e pe].
+  - cbn. destruct S as (pre & m & Hq' & _ & _ & [(R1 & R2 & _)|(R1 & _)]); [|exact R1].
+    exfalso. rewrite Hq' in Hq. apply Forall_app in Hq. destruct Hq as [_ Hq]. inversion Hq as [|? ? Hm' _]; subst.
+    congruence.
+  - exfalso. destruct S as (_ & _ & He & _). specialize (C Lt). lia.
+Qed.
+
+(* microsecond delays: the model's delay (whole milliseconds) is the configured one rounded up *)
+Lemma ms_of_ceil d : 0 <= d < dmax -> d <= 1000 * ms_of true d < d + 1000.
+Proof.
+  intros Hd. unfold ms_of, clamp. rewrite Z.min_r, Z.max_r by lia.
+  destruct (dmax <=? d) eqn:G; [apply Z.leb_le in G; lia|].
+  pose proof (Z.div_mod (d + 999) 1000 ltac:(lia)). pose proof (Z.mod_pos_bound (d + 999) 1000 ltac:(lia)). lia.
+Qed.
+
+Lemma ms_of_plain d : 0 <= d < dmax -> ms_of false d = d.
+Proof.
+  intros Hd. unfold ms_of, clamp. rewrite Z.min_r, Z.max_r by lia.
+  destruct (dmax <=? d) eqn:G; [apply Z.leb_le in G; lia|reflexivity].
+Qed.
+
+Lemma ms_of_round d : 0 <= d < dmax -> d <= 1000 * ms_of true d < d + 1000 /\ ms_of false d = d.
+Proof. intros H. split; [apply ms_of_ceil; exact H|apply ms_of_plain; exact H]. Qed.
+
+(* the only hypothesis of the statements, 1 <= max_hedged_attempts, holds for the
+   configuration of every script (the builder stores n.max(1)) *)
+Lemma cfg_of_maxa sc : (1 <= maxa (cfg_of sc))%nat.
+Proof. unfold cfg_of. cbn [maxa]. apply Nat.le_max_l. Qed.
 
 (* ================= non-vacuity ================= *)
 Definition cfg_fixed10 : cfg := {| maxa := 2; dcfg := Fixed 10; gated := false |}.
@@ -1623,3 +2062,44 @@ Example ex_primary_fast :
   In ((0%nat, true, val 0 0), 5) (dlog x) /\ 5 < t0 x + delay cfg_fixed10 1 /\ launch x = [0] /\
   res x = Some (1, val 0 0, 25).
 Proof. vm_compute. repeat split. left. reflexivity. Qed.
+
+(* a clone whose poll_ready fails: hedge 1 gives up at its launch (10 ms) without an inner call; the
+   call goes on waiting for the primary and reports AllAttemptsFailed only when that has failed
+   too -- with ONE inner call made *)
+Example ex_ready_err :
+  let evs := [ReadyErr 0 1; Poll 0; Advance 10; Poll 0; Poll 0; Advance 5; Complete 0 0 OErr] in
+  let s := fold_left (step_st cfg_fixed10) evs (init cfg_fixed10) in
+  let x := calls s 0 in
+  ph x = Latency /\ launch x = [0; 10] /\ starts x = [(0%nat, 0)] /\ rfl x = [1%nat] /\ waiting x = [] /\
+  dlog x = [((1%nat, false, rval 0 1), 10); ((0%nat, false, val 0 0), 15)] /\
+  Forall (fun m => it_ok m = false) (map fst (dlog x)) /\ (maxa cfg_fixed10 <= length (dlog x))%nat /\
+  snd (step cfg_fixed10 s (Poll 0)) = {| r := 3; v := val 0 0 |} /\
+  res (calls (step_st cfg_fixed10 s (Poll 0)) 0) = Some (3, val 0 0, 15).
+Proof. vm_compute. repeat split; repeat constructor. Qed.
+
+(* back-pressure: the waiting hedge's clone starts failing while it waits *)
+Example ex_ready_err_waiting :
+  let s := fold_left (step_st cfg_fixed10g) [Poll 0; Advance 10; Poll 0; Advance 3] (init cfg_fixed10g) in
+  waiting (calls s 0) = [1%nat] /\
+  let x' := calls (step_st cfg_fixed10g s (ReadyErr 0 1)) 0 in
+  rfl x' = [1%nat] /\ waiting x' = [] /\ starts x' = [(0%nat, 0)] /\
+  queue x' = [(1%nat, false, rval 0 1)] /\ woken x' = true.
+Proof. vm_compute. repeat split. Qed.
+
+(* hypotheses of start_spacing: no back-pressure, latency mode, three inner calls, one readiness
+   failure in between (attempt 2): inner call 2 is made by attempt 3 *)
+Example ex_start_spacing :
+  let c := {| maxa := 4; dcfg := Dynamic [5; 0; 7]; gated := false |} in
+  let x := calls (fold_left (step_st c) [ReadyErr 0 2; Poll 0; Advance 5; Poll 0; Advance 7; Poll 0] (init c)) 0 in
+  gated c = false /\ latency_mode c = true /\
+  starts x = [(0%nat, 0); (1%nat, 5); (3%nat, 12)] /\ rfl x = [2%nat] /\ launch x = [0; 5; 5; 12].
+Proof. vm_compute. repeat split. Qed.
+
+(* microsecond delays: 900 us and 1500 us behave as 1 ms and 2 ms; Duration::MAX never elapses *)
+Example ex_micros :
+  delay (cfg_of [3; 34; 1; 2; 900; 1500]) 1 = 1 /\ delay (cfg_of [3; 34; 1; 2; 900; 1500]) 2 = 2 /\
+  delay (cfg_of [2; 0; 1; 1; 10 ^ 18]) 1 = dmax /\ delay (cfg_of [2; 32; 1; 1; 10 ^ 18]) 1 = dmax /\
+  run_script [2; 0; 1; 1; 10 ^ 18; 1; 0; 0; 3; 100000; 0; 1; 0; 0; 4; 0; 0; 1; 0; 0] =
+    [0; 0; 1; 0; 0; 1; 0;  -1; 0; 0; 0; 0; 1; 100000;  0; 0; 0; 0; 0; 1; 100000;
+     -1; 0; 0; 0; 1; 0; 100000;  1; 0; 0; 0; 0; 0; 100000].
+Proof. vm_compute. repeat split. Qed.
